@@ -3,17 +3,37 @@
 
    Method.  Every function of the model is shown to be a finite composition of a dozen ATOMIC
    transitions (`astep`, closure `trans`): one lemma per model function, independent of the
-   invariants.  Every invariant is then shown to be preserved by each atomic transition, hence
-   by `step`, hence (induction over the event list) by `run`.
+   invariants (section 2).  Every invariant is then shown to be preserved by each atomic
+   transition, hence by `step`, hence (induction over the event list) by `run`.
 
-   Findings (proved below as Examples by vm_compute): the model REFUTES
-     - "p_conn p = Some cid -> connection cid is live"          (C13_peer_conn_live_refuted)
-     - "every host filed in n_peer_waiting is the host of a live connection",
-       "no connections -> no waiting table"                      (C19_waiting_hosts_refuted)
-     - the converse of C13 (known finding)                      (C13_peer_conn_converse_refuted)
-   because a CER / CEA is accepted on a connection that is already identified and overwrites
-   its host identity.  Those properties are proved for GUARDED histories (`greach`): every
-   capabilities-exchange message carries the Origin-Host the connection is already known by. *)
+   Unconditional (`reach`):   I_ids, C13_tables_subset, C13_closed_nowhere, C13_closed_stays_closed,
+                              C13_reason_set, remove_conn_sets_reason, C19_windows_bounded,
+                              C06_ready_inbound_known;
+                              C12_outbound_owned, C12_single_outbound (no peer named "").
+   Under `reach_c` (no peer named "", clauses (i) and (ii) below):
+                              C13_peer_conn_live(_strong), C13_peer_conn_exact (the run-level
+                              converse), C13_one_conn_per_peer, C13_no_conns_no_peer_conn.
+   Under `reach_g` (reach_c and clause (iii)):
+                              C19_waiting_hosts, C19_no_conns_no_tables, C06_ready_known_g.
+   Step level:                C13_ready_flag_partial, C13_ready_flag_removed,
+                              C13_peer_conn_converse_partial, C13_election_clears_rivals.
+
+   The model is the REPAIRED implementation: receive_cer runs the RFC 6733 5.6.4 election among the
+   connections that carry the CER's Origin-Host as node name; receive_cea acts only while the answer
+   is awaited and closes the connection when the Origin-Host is not the dialled peer.  The guard of the
+   earlier version (one CE message per connection, Origin-Host of a CEA = dialled peer, CE on inbound
+   connections are requests) has shrunk to conditions on capabilities-exchange REQUESTS only:
+     (i)   a connection receives at most one CER, ever;
+     (ii)  no CER is read from an outbound connection;
+     (iii) nothing is read from a connection whose connect() has not completed
+   (answers are unrestricted).  Each clause is needed (vm_compute witnesses):
+     - (i):   C13_second_cer_refuted, C19_waiting_hosts_refuted, C13_peer_conn_exact_unguarded_refuted
+     - (ii):  C13_outbound_cer_refuted
+     - (iii): C19_connecting_read_refuted (the history satisfies (i) and (ii))
+     - "no peer named the empty string": C12_empty_name_refuted.
+   No longer counterexamples, deleted: the CEA with a foreign Origin-Host (now
+   cea_foreign_identity_closed) and the two-connections-of-one-peer witnesses of the converse (now
+   election_won / election_lost; the converse is C13_peer_conn_exact). *)
 From DV Require Import Prelude.Base Model.Node.
 From Coq Require Import String.
 From Coq Require Import List Lia Bool Arith.
@@ -57,10 +77,18 @@ Qed.
 
 (* ---- connections ---- *)
 Definition soft (f : conn -> conn) : Prop :=
+  forall c, c_id (f c) = c_id c /\ c_recv (f c) = c_recv c /\ c_node_name (f c) = c_node_name c /\ c_host (f c) = c_host c /\
+            c_state (f c) = c_state c.
+(* as soft, but the connection state may change *)
+Definition isoft (f : conn -> conn) : Prop :=
   forall c, c_id (f c) = c_id c /\ c_recv (f c) = c_recv c /\ c_node_name (f c) = c_node_name c /\ c_host (f c) = c_host c.
 Definition keeps_id (f : conn -> conn) : Prop := forall c, c_id (f c) = c_id c.
 Lemma soft_keeps f : soft f -> keeps_id f.
 Proof. intros H c. apply H. Qed.
+Lemma isoft_keeps f : isoft f -> keeps_id f.
+Proof. intros H c. apply H. Qed.
+Lemma soft_isoft f : soft f -> isoft f.
+Proof. intros H c. destruct (H c) as [A [B [C [D _]]]]. auto. Qed.
 
 Lemma map_id_upd_conn l i f : keeps_id f -> List.map c_id (upd_conn l i f) = List.map c_id l.
 Proof.
@@ -178,14 +206,45 @@ Qed.
 (* ---------------------------------------------------------------------------------------- *)
 (* 1. atomic transitions                                                                      *)
 (* ---------------------------------------------------------------------------------------- *)
-(* MAny: no restriction.  MGuard: a host identity is only ever set to the connection's node
-   name.  MOn k: as MGuard, and identities are written on connection k only.  MQuiet: no identity
-   (node name / host) is written at all. *)
-Inductive mode : Set := MAny | MGuard | MOn (k : nat) | MQuiet.
+(* MAny: no restriction.  MG nc w: (identity guard) a host identity is only ever set to the
+   connection's node name; node names are written (name_fn) only on the connections allowed by w
+   (WAll: anywhere, WOn k: on connection k, WNone: nowhere); if nc = true, in addition nothing is
+   read from a connection that is still CONNECTING. *)
+Inductive wmode : Set := WAll | WOn (k : nat) | WNone.
+Inductive mode : Set := MAny | MG (nc : bool) (w : wmode).
 Definition writes (md : mode) (cid : nat) : Prop :=
-  match md with MQuiet => False | MOn k => k = cid | _ => True end.
+  match md with MAny | MG _ WAll => True | MG _ (WOn k) => k = cid | MG _ WNone => False end.
 Definition guarded (md : mode) : Prop :=
-  match md with MGuard | MOn _ => True | _ => False end.
+  match md with MG _ _ => True | MAny => False end.
+Definition noconn (md : mode) : Prop :=
+  match md with MG true _ => True | _ => False end.
+Lemma noconn_guarded md : noconn md -> guarded md.
+Proof. destruct md as [|[|] w]; cbn; auto. Qed.
+
+(* the states in which a connection has been through a capabilities exchange *)
+Definition est (s : cstate) : Prop :=
+  match s with SReady | SReadyWaitDwa | SDisconnecting => True | _ => False end.
+(* host identity h agrees with the node name of c (an outbound connection always has a node name:
+   the second alternative is empty in reachable states when no peer is named "") *)
+Definition id_ok (c : conn) (h : string) : Prop :=
+  c_node_name c = h \/ (c_node_name c = ""%string /\ c_recv c = false).
+(* an inbound connection whose capabilities exchange has just succeeded: the election has removed
+   every other connection of the same node name, and the peer has a connection *)
+Definition fresh_in (n : node) (c : conn) : Prop :=
+  (forall c', List.In c' (n_conns n) -> c_node_name c' = c_node_name c -> c_id c' = c_id c) /\
+  (c_host c <> ""%string -> forall p, get_peer n (c_host c) = Some p -> p_conn p <> None).
+(* what is known of connection c when its capabilities exchange has just succeeded *)
+Definition fresh_ce (md : mode) (n : node) (c : conn) : Prop :=
+  (guarded md -> id_ok c (c_host c)) /\
+  (c_recv c = true -> c_node_name c <> ""%string \/ List.In (c_node_name c) (List.map p_name (n_peers n))) /\
+  (guarded md -> c_recv c = true -> fresh_in n c).
+(* a legal change of the state of connection c to s' *)
+Definition st_ok (md : mode) (n : node) (c : conn) (s' : cstate) : Prop :=
+  s' = c_state c \/
+  (s' <> SConnecting /\
+   (est s' -> est (c_state c) \/ (c_state c = SConnecting /\ ~ noconn md) \/ fresh_ce md n c)).
+Definition passes (md : mode) (c : conn) : Prop :=
+  est (c_state c) \/ (c_state c = SConnecting /\ ~ noconn md).
 
 Definition soft_peer (f : peer -> peer) : Prop :=
   forall p, p_name (f p) = p_name p /\ p_conn (f p) = p_conn p /\ p_lastdisc (f p) = p_lastdisc p /\
@@ -214,16 +273,18 @@ Definition dial_conn (n : node) (name : string) (hbh0 : Z) : node :=
 
 Inductive astep (md : mode) : node -> node -> Prop :=
 | A_soft n cid f : soft f -> astep md n (set_conns n (upd_conn (n_conns n) cid f))
+| A_state n cid f : isoft f -> (forall c, get_conn n cid = Some c -> st_ok md n c (c_state (f c))) ->
+    astep md n (set_conns n (upd_conn (n_conns n) cid f))
 | A_name n cid host p : writes md cid -> get_peer n host = Some p ->
     astep md n (set_conns n (upd_conn (n_conns n) cid (name_fn host)))
-| A_host n cid host au ac : writes md cid ->
-    (guarded md -> forall c, get_conn n cid = Some c -> c_node_name c = host) ->
+| A_host n cid host au ac :
+    (guarded md -> forall c, get_conn n cid = Some c -> id_ok c host) ->
     astep md n (set_conns n (upd_conn (n_conns n) cid (fun c => set_cident c (c_node_name c) host (au c) (ac c))))
 | A_wait n aw pw ow sa :
     incl (List.map fst pw) (List.map fst (n_peer_waiting n)) ->
     (sa = n_sent_answers n \/ exists o e, sa = sa_append (g_rsize (n_cfg n)) (n_sent_answers n) o e) ->
     astep md n (set_waiting n aw pw ow sa)
-| A_pw_add n cid c k : get_conn n cid = Some c ->
+| A_pw_add n cid c k : get_conn n cid = Some c -> passes md c ->
     astep md n (set_waiting n (n_app_waiting n) (pw_add (n_peer_waiting n) (c_host c) k)
                             (n_origin_waiting n) (n_sent_answers n))
 | A_peer_soft n nm f : soft_peer f -> astep md n (set_peers n (upd_peer (n_peers n) nm f))
@@ -244,23 +305,38 @@ Inductive trans (md : mode) : node -> node -> Prop :=
 Lemma trans_trans md n1 n2 n3 : trans md n1 n2 -> trans md n2 n3 -> trans md n1 n3.
 Proof. intros H1 H2. induction H2 as [|a b c H IH Hs]; [exact H1|]. eapply T_snoc; [apply IH; exact H1|exact Hs]. Qed.
 
-(* an unrestricted derivation from a quiet or guarded one *)
+(* conversions between modes *)
+Lemma st_ok_any md n c s : st_ok md n c s -> st_ok MAny n c s.
+Proof.
+  intros [H0|[H1 H2]]; [now left|]. right. split; auto. intros He.
+  destruct (H2 He) as [A|[[A B]|[A [B C]]]];
+    [auto|right; left; split; [auto|intros []]|right; right; split; [intros []|split; [auto|intros []]]].
+Qed.
 Lemma astep_any md n n' : astep md n n' -> astep MAny n n'.
-Proof. intros H. destruct H; try (econstructor; eauto; fail); econstructor; cbn; eauto; tauto. Qed.
-Lemma trans_any md n n' : trans md n n' -> trans MAny n n'.
-Proof. intros H. induction H; [constructor|]. eapply T_snoc; eauto. eapply astep_any; eauto. Qed.
-Lemma astep_quiet md n n' : astep MQuiet n n' -> astep md n n'.
-Proof. intros H. destruct H; try (econstructor; eauto; fail); cbn in *; tauto. Qed.
-Lemma trans_quiet md n n' : trans MQuiet n n' -> trans md n n'.
-Proof. intros H. induction H; [constructor|]. eapply T_snoc; eauto. eapply astep_quiet; eauto. Qed.
-Lemma astep_on k n n' : astep (MOn k) n n' -> astep MGuard n n'.
 Proof.
   intros H. destruct H; try (econstructor; eauto; fail).
+  - apply A_state; auto. intros c Hc. eapply st_ok_any; eauto.
   - eapply A_name; cbn; eauto.
-  - eapply A_host; cbn; auto.
+  - eapply A_host; cbn; eauto. tauto.
+  - eapply A_pw_add; eauto. destruct H0 as [A|[A B]]; [left; auto|right; split; auto].
 Qed.
-Lemma trans_on k n n' : trans (MOn k) n n' -> trans MGuard n n'.
-Proof. intros H. induction H; [constructor|]. eapply T_snoc; eauto. eapply astep_on; eauto. Qed.
+Lemma trans_any md n n' : trans md n n' -> trans MAny n n'.
+Proof. intros H. induction H; [constructor|]. eapply T_snoc; eauto. eapply astep_any; eauto. Qed.
+
+(* a guarded derivation is a derivation in every mode with the same CONNECTING clause that allows at
+   least the same name writes *)
+Lemma astep_w nc w w' n n' : (forall k, writes (MG nc w) k -> writes (MG nc w') k) ->
+  astep (MG nc w) n n' -> astep (MG nc w') n n'.
+Proof.
+  intros Hw H. inversion H; subst; try (econstructor; eauto; fail).
+Qed.
+Lemma trans_w nc w w' n n' : (forall k, writes (MG nc w) k -> writes (MG nc w') k) ->
+  trans (MG nc w) n n' -> trans (MG nc w') n n'.
+Proof. intros Hw H. induction H; [constructor|]. eapply T_snoc; eauto. eapply astep_w; eauto. Qed.
+Lemma trans_all nc w n n' : trans (MG nc w) n n' -> trans (MG nc WAll) n n'.
+Proof. apply trans_w. intros k _. exact I. Qed.
+Lemma trans_none nc w n n' : trans (MG nc WNone) n n' -> trans (MG nc w) n n'.
+Proof. apply trans_w. intros k []. Qed.
 
 (* ---------------------------------------------------------------------------------------- *)
 (* 2. every model function is a composition of atomic transitions                            *)
@@ -272,6 +348,17 @@ Ltac soft_tac :=
   let c := fresh "c" in
   intro c; repeat (match goal with |- context [if ?b then _ else _] => destruct b end); cbn; auto.
 Ltac t_soft := eapply t_a; [apply A_soft; soft_tac|].
+Lemma st_ok_triv md n c s : s <> SConnecting -> ~ est s -> st_ok md n c s.
+Proof. intros H1 H2. right. split; auto. tauto. Qed.
+(* a state change to a state that is neither CONNECTING nor established *)
+Ltac t_state_triv :=
+  eapply t_a; [apply A_state; [soft_tac|intros ? _; apply st_ok_triv; [discriminate|cbn; tauto]]|].
+(* a state change among the established states, or none *)
+Ltac t_state_cond :=
+  eapply t_a; [apply A_state; [soft_tac|
+    let c := fresh "c" in let Es := fresh "Es" in
+    intros c _; unfold st_ok; destruct (c_state c) eqn:Es; cbn; rewrite ?Es; cbn;
+    try (left; reflexivity); right; (split; [discriminate|intros _; left; exact I])]|].
 Ltac dpair X :=
   let a := fresh "nn" in let b := fresh "oo" in let E := fresh "E" in
   destruct X as [a b] eqn:E; apply (f_equal fst) in E; cbn [fst] in E; subst a.
@@ -305,8 +392,12 @@ Proof.
     eapply t_a; [apply A_wait|exact H]. rewrite map_fst_pw_remove. apply incl_refl. now left.
 Qed.
 
-Lemma flag_ready_t n0 n cid : trans md n0 n -> trans md n0 (flag_ready n cid).
-Proof. intros H. unfold flag_ready. eapply t_a; [apply A_apps|]. t_soft. exact H. Qed.
+Lemma flag_ready_t n0 n cid : (forall c, get_conn n cid = Some c -> st_ok md n c SReady) ->
+  trans md n0 n -> trans md n0 (flag_ready n cid).
+Proof.
+  intros Hs H. unfold flag_ready. eapply t_a; [apply A_apps|].
+  eapply t_a; [apply A_state; [soft_tac|exact Hs]|]. exact H.
+Qed.
 
 Lemma assign_peer_conn_t n0 n cid : trans md n0 n -> trans md n0 (assign_peer_conn n cid).
 Proof.
@@ -331,12 +422,16 @@ Lemma recv_dwr_t n0 n cid m : trans md n0 n -> trans md n0 (fst (recv_dwr n cid 
 Proof. intros H. unfold recv_dwr. now apply send_message_t. Qed.
 
 Lemma recv_dwa_t n0 n cid : trans md n0 n -> trans md n0 (fst (recv_dwa n cid)).
-Proof. intros H. unfold recv_dwa; cbn [fst]. t_soft. exact H. Qed.
+Proof. intros H. unfold recv_dwa; cbn [fst]. t_state_cond. exact H. Qed.
 
-Lemma recv_dpr_t n0 n cid m : trans md n0 n -> trans md n0 (fst (recv_dpr n cid m)).
+Lemma recv_dpr_t n0 n cid m : (forall c, get_conn n cid = Some c -> passes md c) ->
+  trans md n0 n -> trans md n0 (fst (recv_dpr n cid m)).
 Proof.
-  intros H. unfold recv_dpr. apply send_message_t.
-  match goal with |- trans _ _ (match get_conn ?N cid with _ => _ end) => assert (H1 : trans md n0 N) by (t_soft; exact H) end.
+  intros Hp H. unfold recv_dpr. apply send_message_t.
+  match goal with |- trans _ _ (match get_conn ?N cid with _ => _ end) => assert (H1 : trans md n0 N) end.
+  { eapply t_a; [apply A_state; [soft_tac|]|exact H]. intros c Hc. right. split; [discriminate|].
+    intros _. destruct (Hp c Hc); auto. }
+  clear Hp.
   destruct (get_conn _ cid) as [c|]; auto. destruct (find_conn_peer _ c) as [p|]; auto.
   eapply t_a; [apply A_peer_soft|exact H1]. intros q; cbn. repeat split; auto. right; discriminate.
 Qed.
@@ -344,13 +439,14 @@ Qed.
 Lemma recv_dpa_t n0 n cid : trans md n0 n -> trans md n0 (fst (recv_dpa n cid)).
 Proof.
   intros H. unfold recv_dpa.
-  match goal with |- trans _ _ (fst (match get_conn ?N cid with _ => _ end)) => assert (H1 : trans md n0 N) by (t_soft; exact H) end.
+  match goal with |- trans _ _ (fst (match get_conn ?N cid with _ => _ end)) => assert (H1 : trans md n0 N) by (t_state_triv; exact H) end.
   destruct (get_conn _ cid) as [c|]; auto. destruct (c_out c); auto. now apply close_conn_t.
 Qed.
 
-Lemma recv_app_request_t n0 n cid m : trans md n0 n -> trans md n0 (fst (recv_app_request n cid m)).
+Lemma recv_app_request_t n0 n cid m : (forall c, get_conn n cid = Some c -> passes md c) ->
+  trans md n0 n -> trans md n0 (fst (recv_app_request n cid m)).
 Proof.
-  intros H. unfold recv_app_request. destruct (get_conn n cid) as [c|] eqn:Ec; auto.
+  intros Hp H. unfold recv_app_request. destruct (get_conn n cid) as [c|] eqn:Ec; auto.
   destruct (m_drealm m); try now apply send_message_t.
   destruct (route_lookup n a); try now apply send_message_t.
   destruct (List.find _ l) as [[[i|] x]|]; try now apply send_message_t.
@@ -379,12 +475,24 @@ Lemma send_dwr_t n0 n cid : trans md n0 n -> trans md n0 (fst (send_dwr n cid)).
 Proof.
   intros H. unfold send_dwr. dpair (own_request n cid DW).
   match goal with |- context [send_message ?N ?C ?M] => dpair (send_message N C M) end.
-  cbn [fst]. t_soft. apply send_message_t. now apply own_request_t.
+  cbn [fst]. t_state_cond. apply send_message_t. now apply own_request_t.
 Qed.
 
-Lemma send_dpr_t n0 n cid : trans md n0 n -> trans md n0 (fst (send_dpr n cid)).
+Lemma own_request_conn n cid x c' : get_conn (fst (own_request n cid x)) cid = Some c' ->
+  exists c, get_conn n cid = Some c /\ c_state c' = c_state c.
 Proof.
-  intros H. unfold send_dpr. dpair (own_request n cid DP). apply send_message_t. t_soft. now apply own_request_t.
+  unfold own_request. destruct (get_conn n cid) as [cn|] eqn:E; cbn [fst]; [|congruence].
+  unfold get_conn. cbn. rewrite find_upd_conn by (intro; reflexivity). unfold get_conn in E. rewrite E. cbn.
+  intros H; inversion H. exists cn. auto.
+Qed.
+
+Lemma send_dpr_t n0 n cid : (forall c, get_conn n cid = Some c -> est (c_state c)) ->
+  trans md n0 n -> trans md n0 (fst (send_dpr n cid)).
+Proof.
+  intros He H. unfold send_dpr. dpair (own_request n cid DP). apply send_message_t.
+  eapply t_a; [apply A_state; [soft_tac|]|now apply own_request_t].
+  intros c' Hc'. destruct (own_request_conn _ _ _ _ Hc') as [c [Hc Es]]. right. split; [discriminate|].
+  intros _. left. rewrite Es. auto.
 Qed.
 
 Lemma check_timers_t n0 n cid : trans md n0 n -> trans md n0 (fst (check_timers n cid)).
@@ -410,7 +518,7 @@ Proof.
   unfold dial_conn in H1. cbv zeta.
   destruct res.
   - match goal with |- context [send_cer ?N ?C] => dpair (send_cer N C) end. cbn [fst].
-    apply send_cer_t. t_soft. exact H1.
+    apply send_cer_t. t_state_triv. exact H1.
   - match goal with |- context [close_conn ?N ?C ?R] => dpair (close_conn N C R) end. cbn [fst].
     apply close_conn_t. exact H1.
   - cbn [fst]. exact H1.
@@ -469,12 +577,9 @@ End Prims.
 Definition cer_pre (md : mode) (n : node) (cid : nat) (host : string) : Prop :=
   writes md cid /\
   (guarded md -> forall c, get_conn n cid = Some c -> c_node_name c = host \/ c_node_name c = ""%string).
-Definition cea_pre (md : mode) (n : node) (cid : nat) (m : msg) : Prop :=
-  writes md cid /\
-  (guarded md -> forall o c, m_origin m = Present o -> get_conn n cid = Some c -> c_node_name c = o).
 Definition msg_pre (md : mode) (n : node) (cid : nat) (m : msg) : Prop :=
-  m_cmd m = CE ->
-  if m_req m then (forall host, m_origin m = Present host -> cer_pre md n cid host) else cea_pre md n cid m.
+  (noconn md -> forall c, get_conn n cid = Some c -> c_state c <> SConnecting) /\
+  (m_cmd m = CE -> m_req m = true -> forall host, m_origin m = Present host -> cer_pre md n cid host).
 
 Lemma match3 {T} (P : T -> Prop) (a b : list Z) (c : bool) (X Y : T) :
   P X -> P Y -> P (match a, b, c with [], [], false => X | _, _, _ => Y end).
@@ -491,8 +596,189 @@ Proof. intros Hf. unfold get_conn. cbn. now apply find_upd_conn. Qed.
 Lemma keeps_id_name_fn host : keeps_id (name_fn host).
 Proof. intros c. unfold name_fn. destruct (String.eqb _ _); auto. Qed.
 
+Lemma assign_conns n cid : n_conns (assign_peer_conn n cid) = n_conns n.
+Proof.
+  unfold assign_peer_conn. destruct (get_conn n cid) as [c|]; auto. destruct (String.eqb (c_host c) ""); auto.
+  destruct (get_peer n (c_host c)); auto. destruct (mem_nat cid (n_half_ready n)); reflexivity.
+Qed.
+Lemma assign_names n cid : List.map p_name (n_peers (assign_peer_conn n cid)) = List.map p_name (n_peers n).
+Proof.
+  unfold assign_peer_conn. destruct (get_conn n cid) as [c|]; auto. destruct (String.eqb (c_host c) ""); auto.
+  destruct (get_peer n (c_host c)); auto.
+  destruct (mem_nat cid (n_half_ready n)); cbn; apply map_name_upd_peer; intro; reflexivity.
+Qed.
+
+Lemma find_upd_peer l nm f : keeps_name f ->
+  List.find (fun p => String.eqb (p_name p) nm) (upd_peer l nm f) =
+  option_map f (List.find (fun p => String.eqb (p_name p) nm) l).
+Proof.
+  intros Hf. induction l as [|p l IH]; cbn; auto.
+  destruct (String.eqb (p_name p) nm) eqn:E; cbn; [rewrite Hf, E; auto|rewrite E; auto].
+Qed.
+
+(* after _assign_peer_connection the peer named by the host identity has a connection *)
+Lemma assign_sets n cid c : get_conn n cid = Some c -> c_host c <> ""%string ->
+  forall p, get_peer (assign_peer_conn n cid) (c_host c) = Some p -> p_conn p <> None.
+Proof.
+  intros Hg Hh p. unfold assign_peer_conn. rewrite Hg. apply String.eqb_neq in Hh. rewrite Hh.
+  destruct (get_peer n (c_host c)) as [q|] eqn:Ep; [|congruence].
+  assert (Hf : get_peer (set_peers n (upd_peer (n_peers n) (c_host c)
+             (assign_fn cid (fun p => if mem_nat cid (n_half_ready n) then Some (n_now n) else p_lastconn p)))) (c_host c) = Some p ->
+             p_conn p <> None).
+  { unfold get_peer. cbn [n_peers set_peers]. rewrite find_upd_peer by (intro; reflexivity).
+    unfold get_peer in Ep. rewrite Ep. cbn [option_map]. intros E; inversion E. unfold assign_fn; cbn.
+    destruct (p_conn q); discriminate. }
+  unfold assign_fn in Hf. destruct (mem_nat cid (n_half_ready n)); exact Hf.
+Qed.
+
+(* ---- the election: close_all ---- *)
+Lemma find_filter_id l cid k c' :
+  List.find (fun c => Nat.eqb (c_id c) cid) (List.filter (fun x => negb (Nat.eqb (c_id x) k)) l) = Some c' ->
+  List.find (fun c => Nat.eqb (c_id c) cid) l = Some c'.
+Proof.
+  induction l as [|a l IH]; cbn; auto.
+  destruct (Nat.eqb (c_id a) k) eqn:Ek; cbn.
+  - intros H. destruct (Nat.eqb (c_id a) cid) eqn:Ec; auto. exfalso.
+    apply find_some in H. destruct H as [H1 H2]. apply filter_In in H1. destruct H1 as [_ H1].
+    apply Nat.eqb_eq in Ek, Ec, H2. apply negb_true_iff, Nat.eqb_neq in H1. congruence.
+  - destruct (Nat.eqb (c_id a) cid); auto.
+Qed.
+
+Lemma remove_conn_conns n cid r c : get_conn n cid = Some c ->
+  n_conns (remove_conn n cid r) = List.filter (fun x => negb (Nat.eqb (c_id x) cid)) (n_conns n).
+Proof.
+  intros Hg. unfold remove_conn. rewrite Hg.
+  destruct (find_conn_peer n c) as [p|]; [destruct (p_conn p) as [k|]; [destruct (Nat.eqb k cid)|]|]; reflexivity.
+Qed.
+Lemma remove_conn_names n cid r : List.map p_name (n_peers (remove_conn n cid r)) = List.map p_name (n_peers n).
+Proof.
+  unfold remove_conn. destruct (get_conn n cid) as [c|]; auto.
+  destruct (find_conn_peer n c) as [p|]; [destruct (p_conn p) as [k|]; [destruct (Nat.eqb k cid)|]|]; cbn; auto.
+  apply map_name_upd_peer. intro; reflexivity.
+Qed.
+
+Lemma close_conn_in n k r c' : List.In c' (n_conns (fst (close_conn n k r))) -> List.In c' (n_conns n) /\ c_id c' <> k.
+Proof.
+  unfold close_conn. destruct (get_conn n k) as [c|] eqn:E; cbn [fst].
+  - erewrite remove_conn_conns by eauto. intros H. apply filter_In in H. destruct H as [H1 H2].
+    split; auto. now apply negb_true_iff, Nat.eqb_neq in H2.
+  - intros H. split; auto. intro D. apply get_conn_none in E. apply E. rewrite <- D. now apply in_map.
+Qed.
+Lemma close_conn_get n k r cid x : get_conn (fst (close_conn n k r)) cid = Some x -> get_conn n cid = Some x.
+Proof.
+  unfold close_conn. destruct (get_conn n k) as [c|] eqn:E; cbn [fst]; auto.
+  unfold get_conn. erewrite remove_conn_conns by eauto. apply find_filter_id.
+Qed.
+Lemma close_conn_names n k r : List.map p_name (n_peers (fst (close_conn n k r))) = List.map p_name (n_peers n).
+Proof. unfold close_conn. destruct (get_conn n k); cbn [fst]; auto. apply remove_conn_names. Qed.
+
+Lemma close_all_in ks : forall n r c', List.In c' (n_conns (fst (close_all n ks r))) ->
+  List.In c' (n_conns n) /\ ~ List.In (c_id c') ks.
+Proof.
+  induction ks as [|k ks IH]; intros n r c'; cbn [close_all fst]; [tauto|].
+  dpair (close_conn n k r). dpair (close_all (fst (close_conn n k r)) ks r). cbn [fst].
+  intros H. apply IH in H. destruct H as [H1 H2]. apply close_conn_in in H1. destruct H1 as [H1 H3].
+  split; auto. intros [D|D]; auto.
+Qed.
+Lemma close_all_get ks : forall n r cid x, get_conn (fst (close_all n ks r)) cid = Some x -> get_conn n cid = Some x.
+Proof.
+  induction ks as [|k ks IH]; intros n r cid x; cbn [close_all fst]; auto.
+  dpair (close_conn n k r). dpair (close_all (fst (close_conn n k r)) ks r). cbn [fst].
+  intros H. apply IH in H. now apply close_conn_get in H.
+Qed.
+Lemma close_all_names ks : forall n r, List.map p_name (n_peers (fst (close_all n ks r))) = List.map p_name (n_peers n).
+Proof.
+  induction ks as [|k ks IH]; intros n r; cbn [close_all fst]; auto.
+  dpair (close_conn n k r). dpair (close_all (fst (close_conn n k r)) ks r). cbn [fst].
+  rewrite IH. apply close_conn_names.
+Qed.
+Lemma close_all_t md ks : forall n0 n r, trans md n0 n -> trans md n0 (fst (close_all n ks r)).
+Proof.
+  induction ks as [|k ks IH]; intros n0 n r H; cbn [close_all fst]; auto.
+  dpair (close_conn n k r). dpair (close_all (fst (close_conn n k r)) ks r). cbn [fst].
+  apply IH. now apply close_conn_t.
+Qed.
+
+(* what the gate of PeerConnection lets through *)
+Lemma gate_passes_cases md c m : gate_passes c m = true -> (noconn md -> c_state c <> SConnecting) ->
+  passes md c \/
+  (c_state c = SConnected /\ m_cmd m = CE /\ (if c_recv c then m_req m = true else m_req m = false)).
+Proof.
+  unfold gate_passes, passes. intros Hg Hn. destruct (c_state c) eqn:Es; cbn; try discriminate; auto.
+  - left. right. split; auto. intro G. now apply Hn.
+  - right. apply andb_true_iff in Hg. destruct Hg as [H1 H2]. split; auto. split.
+    + destruct (m_cmd m); cbn in H1; try discriminate; auto.
+    + destruct (c_recv c); auto. now apply negb_true_iff.
+Qed.
+
+(* the part of receive_cer after a won (or empty) election *)
+Definition cer_tail (n0 : node) (rivals : list nat) (cid : nat) (host : string) (m : msg) : node * list output :=
+  let '(n1, oel) := close_all n0 rivals R_CLEAN in
+  let sup_auth := inter_z (node_auth n1) (m_auth m) in
+  let sup_acct := inter_z (node_acct n1) (m_acct m) in
+  let relay := mem_z APP_RELAY (m_auth m) || mem_z APP_RELAY (m_acct m) in
+  match sup_auth, sup_acct, relay with
+  | [], [], false =>
+      let '(n2, o) := send_message n1 cid (answer_of m (Some RC_NO_COMMON_APP) []) in (n2, (oel ++ o)%list)
+  | _, _, _ =>
+      let n2 := set_conns n1 (upd_conn (n_conns n1) cid (fun c => set_cident c (c_node_name c) host sup_auth sup_acct)) in
+      let n3 := flag_ready (assign_peer_conn n2 cid) cid in
+      let '(n4, o) := send_message n3 cid (answer_of m (Some RC_SUCCESS) []) in (n4, (oel ++ o)%list)
+  end.
+
 Section Handlers.
 Variable md : mode.
+
+Lemma cer_tail_t s0 n cid host m rivals pr :
+  get_peer n host = Some pr ->
+  (guarded md -> forall c, get_conn n cid = Some c -> c_node_name c = host) ->
+  (forall c, get_conn n cid = Some c -> c_recv c = true ->
+     c_node_name c <> ""%string \/ List.In (c_node_name c) (List.map p_name (n_peers n))) ->
+  (forall c', List.In c' (n_conns n) -> c_id c' <> cid -> c_node_name c' = host -> List.In (c_id c') rivals) ->
+  trans md s0 n -> trans md s0 (fst (cer_tail n rivals cid host m)).
+Proof.
+  intros Ep Hnm Hkn Hriv H. unfold cer_tail.
+  destruct (close_all n rivals R_CLEAN) as [n1 oel] eqn:Eca.
+  assert (En1 : n1 = fst (close_all n rivals R_CLEAN)) by now rewrite Eca.
+  assert (H1 : trans md s0 n1) by (rewrite En1; now apply close_all_t).
+  assert (Hget : forall x, get_conn n1 cid = Some x -> get_conn n cid = Some x).
+  { intros x. rewrite En1. apply close_all_get. }
+  assert (Hin1 : forall c', List.In c' (n_conns n1) -> List.In c' (n_conns n) /\ ~ List.In (c_id c') rivals).
+  { intros c'. rewrite En1. apply close_all_in. }
+  assert (Hnames : List.map p_name (n_peers n1) = List.map p_name (n_peers n)).
+  { rewrite En1. apply close_all_names. }
+  clear Eca En1. cbv zeta.
+  apply (match3 (fun x => trans md s0 (fst x))).
+  - match goal with |- context [send_message ?N ?C ?M] => dpair (send_message N C M) end. cbn [fst].
+    now apply send_message_t.
+  - match goal with |- context [send_message ?N ?C ?M] => dpair (send_message N C M) end. cbn [fst].
+    apply send_message_t.
+    match goal with |- context [upd_conn (n_conns n1) cid ?F] => set (hf := F) end.
+    assert (Hk : keeps_id hf) by (intro; reflexivity).
+    assert (H2 : trans md s0 (set_conns n1 (upd_conn (n_conns n1) cid hf))).
+    { eapply t_a; [|exact H1].
+      apply (A_host md n1 cid host (fun _ => inter_z (node_auth n1) (m_auth m)) (fun _ => inter_z (node_acct n1) (m_acct m))).
+      intros G c Ec. left. apply Hnm; auto. }
+    apply flag_ready_t; [|apply assign_peer_conn_t; exact H2].
+    intros c''. unfold get_conn at 1. rewrite assign_conns.
+    change (get_conn (set_conns n1 (upd_conn (n_conns n1) cid hf)) cid = Some c'' ->
+            st_ok md (assign_peer_conn (set_conns n1 (upd_conn (n_conns n1) cid hf)) cid) c'' SReady).
+    intros Ec''. pose proof Ec'' as Ec2. rewrite get_conn_upd in Ec2 by exact Hk.
+    destruct (get_conn n1 cid) as [x|] eqn:Ex; cbn [option_map] in Ec2; [|discriminate].
+    inversion Ec2; subst c''. clear Ec2. pose proof (Hget x eq_refl) as Exn.
+    right. split; [discriminate|]. intros _. right. right. split; [|split].
+    + intros G. left. subst hf. cbn. now apply Hnm.
+    + intros Hr. rewrite assign_names. cbn [n_peers set_conns]. rewrite Hnames. subst hf. cbn. apply Hkn; auto.
+    + intros G Hr. split.
+      * intros c' Hc' En. rewrite assign_conns in Hc'. cbn [n_conns set_conns] in Hc'.
+        assert (Eid : c_id (hf x) = cid) by (rewrite Hk; apply (get_conn_some _ _ _ Exn)).
+        rewrite Eid. apply in_upd_conn in Hc'. destruct Hc' as [Hc'|[y [Hy [E Ey]]]].
+        -- destruct (Nat.eq_dec (c_id c') cid) as [D|D]; auto. exfalso.
+           destruct (Hin1 c' Hc') as [A B]. apply B. apply Hriv; auto.
+           rewrite En. subst hf. cbn. now apply Hnm.
+        -- subst c'. now rewrite Hk.
+      * apply assign_sets. exact Ec''.
+Qed.
 
 Lemma recv_cer_t n0 n cid m :
   (forall host, m_origin m = Present host -> cer_pre md n cid host) ->
@@ -504,57 +790,88 @@ Proof.
   - assert (H1 : trans md n0 (set_conns n (upd_conn (n_conns n) cid (name_fn host)))).
     { eapply t_a; [eapply A_name; eauto|exact H]. }
     unfold name_fn in H1. cbv zeta.
-    apply (match3 (fun x => trans md n0 (fst x))).
-    + now apply send_message_t.
-    + apply send_message_t. apply flag_ready_t. apply assign_peer_conn_t.
-      eapply t_a; [|exact H1].
-      apply (A_host md _ cid host (fun _ => _) (fun _ => _)); auto.
-      intros Hmd c'. fold (name_fn host). rewrite get_conn_upd by apply keeps_id_name_fn.
-      destruct (get_conn n cid) as [c|] eqn:Ec; cbn; [|discriminate]. intros E; inversion E; subst c'.
-      unfold name_fn. destruct (Hg Hmd c eq_refl) as [D|D].
-      * destruct (String.eqb (c_node_name c) ""); cbn; auto.
-      * rewrite D. cbn. auto.
-  - cbv zeta. apply send_message_t. t_soft. exact H.
+    match goal with |- context [election_rivals ?N cid host] => set (nn := N) in * end.
+    assert (Htail : trans md n0 (fst (cer_tail nn (election_rivals nn cid host) cid host m))).
+    { apply (cer_tail_t n0 nn cid host m _ p); auto.
+      - intros G c'. subst nn. fold (name_fn host). rewrite get_conn_upd by apply keeps_id_name_fn.
+        destruct (get_conn n cid) as [c|] eqn:Ec; cbn [option_map]; [|discriminate].
+        intros E; inversion E. unfold name_fn. destruct (Hg G c eq_refl) as [D|D].
+        + destruct (String.eqb (c_node_name c) ""); cbn; auto.
+        + rewrite D. cbn. auto.
+      - intros c'. subst nn. fold (name_fn host). rewrite get_conn_upd by apply keeps_id_name_fn.
+        destruct (get_conn n cid) as [c|] eqn:Ec; cbn [option_map]; [|discriminate].
+        intros E; inversion E. intros _. cbn [n_peers set_conns]. unfold name_fn.
+        destruct (String.eqb (c_node_name c) "") eqn:En; cbn.
+        + right. destruct (get_peer_some _ _ _ Ep) as [Hin E1]. rewrite <- E1. now apply in_map.
+        + left. now apply String.eqb_neq.
+      - intros c' Hc' Hid Hn. unfold election_rivals. apply in_map. apply filter_In. split; auto.
+        apply andb_true_iff. split; [now apply negb_true_iff, Nat.eqb_neq|now apply String.eqb_eq]. }
+    unfold cer_tail in Htail.
+    destruct (election_rivals nn cid host) as [|k ks]; [exact Htail|].
+    destruct (String.ltb host (g_host (n_cfg nn))); [exact Htail|].
+    apply send_message_t. t_state_triv. exact H1.
+  - cbv zeta. apply send_message_t. t_state_triv. exact H.
 Qed.
 
-Lemma recv_cea_t n0 n cid m : cea_pre md n cid m ->
+Lemma recv_cea_t n0 n cid m :
+  (forall c, get_conn n cid = Some c -> c_recv c = false \/ passes md c) ->
   trans md n0 n -> trans md n0 (fst (recv_cea n cid m)).
 Proof.
-  intros [Hq Hg] H. unfold recv_cea. apply (match_2001 (fun x => trans md n0 (fst x))).
-  - cbv zeta.
-    match goal with |- context [upd_conn (n_conns n) cid ?F] =>
-      assert (H1 : trans md n0 (set_conns n (upd_conn (n_conns n) cid F))) by (t_soft; exact H);
-      assert (Hk : keeps_id F) by (intro; reflexivity) end.
-    destruct (m_origin m) as [| |host] eqn:Eo; cbn [pres_get fst]; auto.
-    apply flag_ready_t. apply assign_peer_conn_t. eapply t_a; [|exact H1].
-    apply (A_host md _ cid host (fun c => c_auth c) (fun c => c_acct c)); auto.
-    intros Hmd c'. rewrite get_conn_upd by exact Hk.
-    destruct (get_conn n cid) as [c|] eqn:Ec; cbn; [|discriminate]. intros E; inversion E; subst c'.
-    cbn. eapply Hg; eauto.
-  - now apply close_conn_t.
+  intros Hst H. unfold recv_cea. destruct (get_conn n cid) as [c0|] eqn:Ec; auto.
+  destruct (cstate_eqb (c_state c0) SConnected) eqn:Es; cbn [negb]; auto.
+  assert (Hr : c_recv c0 = false).
+  { destruct (Hst c0 eq_refl) as [R|[A|[A _]]]; auto; destruct (c_state c0); try discriminate; destruct A. }
+  apply (match_2001 (fun x => trans md n0 (fst x))); [|now apply close_conn_t].
+  destruct (m_origin m) as [| |host] eqn:Eo; cbn [pres_get fst]; auto.
+  match goal with |- context [if ?b then _ else _] => destruct b eqn:Econd end; [now apply close_conn_t|].
+  assert (Hok : id_ok c0 host).
+  { apply andb_false_iff in Econd. destruct Econd as [E|E]; apply negb_false_iff in E.
+    - right. split; auto. now apply String.eqb_eq.
+    - left. symmetry. now apply String.eqb_eq. }
+  cbv zeta. cbn [fst].
+  match goal with |- context [upd_conn (n_conns n) cid ?F] => set (hf := F) end.
+  assert (Hk : keeps_id hf) by (intro; reflexivity).
+  assert (H2 : trans md n0 (set_conns n (upd_conn (n_conns n) cid hf))).
+  { eapply t_a; [|exact H].
+    apply (A_host md n cid host (fun _ => inter_z (node_auth n) (m_auth m)) (fun _ => inter_z (node_acct n) (m_acct m))).
+    intros G c Ec'. rewrite Ec in Ec'. inversion Ec'; subst c. exact Hok. }
+  apply flag_ready_t; [|apply assign_peer_conn_t; exact H2].
+  intros c''. unfold get_conn at 1. rewrite assign_conns.
+  change (get_conn (set_conns n (upd_conn (n_conns n) cid hf)) cid = Some c'' ->
+          st_ok md (assign_peer_conn (set_conns n (upd_conn (n_conns n) cid hf)) cid) c'' SReady).
+  rewrite get_conn_upd by exact Hk. rewrite Ec. cbn [option_map]. intros E; inversion E; subst c''.
+  right. split; [discriminate|]. intros _. right. right. split; [|split].
+  - intros _. subst hf. exact Hok.
+  - subst hf. cbn. congruence.
+  - subst hf. cbn. congruence.
 Qed.
 
 Lemma receive_message_t n0 n cid m : msg_pre md n cid m ->
+  (forall c, get_conn n cid = Some c -> gate_passes c m = true) ->
   trans md n0 n -> trans md n0 (fst (receive_message n cid m)).
 Proof.
-  intros Hpre H. unfold receive_message. cbv zeta.
+  intros [Hnc Hpre] Hgate H. unfold receive_message. cbv zeta.
   match goal with |- context [g_validate (n_cfg ?N)] => set (n1 := N) end.
   assert (Hc : get_conn n1 cid = get_conn n cid).
   { subst n1. destruct (m_origin m); auto; destruct (m_req m); auto. }
   assert (H1 : trans md n0 n1).
   { subst n1. destruct (m_origin m); auto; destruct (m_req m); auto;
       (eapply t_a; [apply A_wait|exact H]; [apply incl_refl|now left]). }
+  assert (Hcase : forall c, get_conn n1 cid = Some c -> passes md c \/
+            (c_state c = SConnected /\ m_cmd m = CE /\ (if c_recv c then m_req m = true else m_req m = false))).
+  { intros c Ec. rewrite Hc in Ec. apply gate_passes_cases; [apply Hgate; auto|intros G; eapply Hnc; eauto]. }
   clearbody n1.
   destruct (if m_req m && g_validate (n_cfg n1) then m_missing m else []); [|now apply send_message_t].
   match goal with |- context [if ?b then _ else _] => destruct b end; [now apply send_message_t|].
-  unfold msg_pre, cer_pre, cea_pre in Hpre. rewrite <- Hc in Hpre.
-  destruct (m_req m), (m_cmd m).
+  unfold cer_pre in Hpre. rewrite <- Hc in Hpre.
+  destruct (m_req m) eqn:Er, (m_cmd m) eqn:Em.
   - destruct (m_origin m) eqn:Eo; try now apply send_message_t.
-    apply recv_cer_t; auto. rewrite Eo. intros host E. apply (Hpre eq_refl host E).
+    apply recv_cer_t; auto. rewrite Eo. intros host E. apply (Hpre eq_refl eq_refl host E).
   - now apply recv_dwr_t.
-  - now apply recv_dpr_t.
-  - now apply recv_app_request_t.
-  - apply recv_cea_t; auto. apply (Hpre eq_refl).
+  - apply recv_dpr_t; auto. intros c Ec. destruct (Hcase c Ec) as [A|[_ [A _]]]; [auto|discriminate].
+  - apply recv_app_request_t; auto. intros c Ec. destruct (Hcase c Ec) as [A|[_ [A _]]]; [auto|discriminate].
+  - apply recv_cea_t; auto.
+    intros c Ec. destruct (Hcase c Ec) as [A|[_ [_ A]]]; auto. destruct (c_recv c); [discriminate|auto].
   - now apply recv_dwa_t.
   - now apply recv_dpa_t.
   - now apply recv_app_answer_t.
@@ -563,8 +880,9 @@ Qed.
 Lemma dispatch_t n0 n cid m : msg_pre md n cid m ->
   trans md n0 n -> trans md n0 (fst (dispatch n cid m)).
 Proof.
-  intros Hpre H. unfold dispatch. destruct (get_conn n cid) as [c|]; auto.
-  destruct (gate_passes c m); auto. now apply receive_message_t.
+  intros Hpre H. unfold dispatch. destruct (get_conn n cid) as [c|] eqn:Ec; auto.
+  destruct (gate_passes c m) eqn:Eg; auto. apply receive_message_t; auto.
+  intros c' E. rewrite Ec in E. inversion E; subst c'. exact Eg.
 Qed.
 
 Fixpoint msgs_pre (n : node) (cid : nat) (ms : list msg) : Prop :=
@@ -628,9 +946,10 @@ Lemma stop_go_t cids : forall n0 n acc, trans md n0 n ->
              end) cids n acc)).
 Proof.
   induction cids as [|c r IH]; intros n0 n acc H; [exact H|].
-  destruct (get_conn n c) as [cn|]; [|now apply IH].
-  destruct (is_ready_state (c_state cn)); [|now apply IH].
-  dpair (send_dpr n c). apply IH. now apply send_dpr_t.
+  destruct (get_conn n c) as [cn|] eqn:Ec; [|now apply IH].
+  destruct (is_ready_state (c_state cn)) eqn:Er; [|now apply IH].
+  dpair (send_dpr n c). apply IH. apply send_dpr_t; auto.
+  intros c' E. rewrite Ec in E. inversion E; subst c'. destruct (c_state cn); try discriminate; exact I.
 Qed.
 
 Lemma finish_go_t cids : forall n0 n acc, trans md n0 n ->
@@ -699,7 +1018,7 @@ Proof.
     + cbv zeta.
       match goal with |- context [send_cer ?N cid] => assert (H1 : trans md n0 N); [|dpair (send_cer N cid)] end.
       { match goal with |- trans _ _ (match find_conn_peer ?N c with _ => _ end) =>
-          assert (H2 : trans md n0 N) by (t_soft; exact H) end.
+          assert (H2 : trans md n0 N) by (t_state_triv; exact H) end.
         destruct (find_conn_peer _ c); auto.
         eapply t_a; [apply A_peer_soft|exact H2]. intros q; cbn. repeat split; auto. }
       match goal with |- context [io_iteration ?N ?D] => dtriple (io_iteration N D) end.
@@ -796,7 +1115,7 @@ Lemma ev_pre_any n ds e : ev_pre MAny n ds e.
 Proof.
   destruct e; cbn; auto. generalize (upd_last_read (fst (fst (io_iteration n ds))) cid). intros n1.
   revert n1. induction ms as [|m r IH]; intros n1; cbn; auto. split; auto.
-  unfold msg_pre, cer_pre, cea_pre. intros _. destruct (m_req m); intros; split; cbn; tauto.
+  unfold msg_pre, cer_pre. split; [intros []|]. intros _ _ host _. split; cbn; tauto.
 Qed.
 
 Lemma run_t md evs : forall n0 n, evs_pre md n evs -> trans md n0 n -> trans md n0 (fst (run n evs)).
@@ -947,6 +1266,7 @@ Lemma astep_ids md n n' : astep md n n' -> P_ids n -> P_ids n'.
 Proof.
   intros H Hi. destruct H; try exact Hi.
   - apply P_ids_upd; auto. now apply soft_keeps.
+  - apply P_ids_upd; auto. now apply isoft_keeps.
   - apply P_ids_upd; auto. apply keeps_id_name_fn.
   - apply P_ids_upd; auto. apply keeps_id_host.
   - destruct Hi as [H1 H2]. split.
@@ -980,6 +1300,7 @@ Lemma astep_tabs md n n' : astep md n n' -> P_ids n -> P_tabs n -> P_tabs n'.
 Proof.
   intros H Hi Ht. destruct H; try exact Ht.
   - apply P_tabs_upd; auto. now apply soft_keeps.
+  - apply P_tabs_upd; auto. now apply isoft_keeps.
   - apply P_tabs_upd; auto. apply keeps_id_name_fn.
   - apply P_tabs_upd; auto. apply keeps_id_host.
   - destruct Ht as [H1 [H2 [H3 H4]]]. split; [|split; [|split]]; cbn; auto.
@@ -1151,6 +1472,7 @@ Lemma astep_dead md cid n n' : astep md n n' -> dead cid n -> dead cid n'.
 Proof.
   intros H [H1 H2]. destruct H; try (split; assumption); unfold dead; cbn.
   - rewrite map_id_upd_conn; auto. now apply soft_keeps.
+  - rewrite map_id_upd_conn; auto. now apply isoft_keeps.
   - rewrite map_id_upd_conn; auto. apply keeps_id_name_fn.
   - rewrite map_id_upd_conn; auto. apply keeps_id_host.
   - erewrite rc_next, rc_conns by eauto. split; auto. intro Hin. apply H2.
@@ -1181,14 +1503,6 @@ Qed.
 Theorem C13_reason_set : forall n0 n, reach n0 n ->
   forall p, List.In p (n_peers n) -> p_conn p = None /\ p_lastdisc p <> None -> p_reason p <> None.
 Proof. intros n0 n H p Hp [A B]. apply reach_W in H. destruct H as [_ [_ [_ [H _]]]]. now apply H. Qed.
-
-Lemma find_upd_peer l nm f : keeps_name f ->
-  List.find (fun p => String.eqb (p_name p) nm) (upd_peer l nm f) =
-  option_map f (List.find (fun p => String.eqb (p_name p) nm) l).
-Proof.
-  intros Hf. induction l as [|p l IH]; cbn; auto.
-  destruct (String.eqb (p_name p) nm) eqn:E; cbn; [rewrite Hf, E; auto|rewrite E; auto].
-Qed.
 
 Theorem remove_conn_sets_reason : forall n cid r c p,
   get_conn n cid = Some c -> find_conn_peer n c = Some p -> p_conn p = Some cid ->
@@ -1250,6 +1564,7 @@ Qed.
 Lemma astep_own md n n' : astep md n n' -> P_ids n -> P_names n -> P_ne n -> P_own n -> P_own n'.
 Proof.
   intros H Hi Hn Hne Ho. destruct H; try exact Ho.
+  - apply P_own_upd; auto. intros c. destruct (H c) as [A [B [C D]]]. auto.
   - apply P_own_upd; auto. intros c. destruct (H c) as [A [B [C D]]]. auto.
   - apply P_own_upd; auto. intros c. unfold name_fn.
     destruct (String.eqb (c_node_name c) "") eqn:E; cbn; auto.
@@ -1327,6 +1642,118 @@ Proof.
 Qed.
 
 (* ---------------------------------------------------------------------------------------- *)
+(* 6b. C06: connection states and the handshake                                               *)
+(* ---------------------------------------------------------------------------------------- *)
+Definition K2 (n : node) : Prop :=
+  forall c, List.In c (n_conns n) -> c_recv c = true -> c_state c <> SConnecting.
+Definition K0 (n : node) : Prop :=
+  forall c, List.In c (n_conns n) -> c_recv c = true ->
+  c_node_name c = ""%string \/ List.In (c_node_name c) (List.map p_name (n_peers n)).
+Definition K1 (n : node) : Prop :=
+  forall c, List.In c (n_conns n) -> c_recv c = true -> est (c_state c) ->
+  List.In (c_node_name c) (List.map p_name (n_peers n)).
+
+Lemma get_conn_in n c : P_ids n -> List.In c (n_conns n) -> get_conn n (c_id c) = Some c.
+Proof. intros [H _] Hin. unfold get_conn. now apply find_conn_in. Qed.
+
+Lemma astep_K2 md n n' : astep md n n' -> P_ids n -> K2 n -> K2 n'.
+Proof.
+  intros H Hi Hk. destruct H; try exact Hk.
+  - intros c' Hin Hr. cbn in Hin. apply in_upd_conn in Hin. destruct Hin as [Hin|[c [Hin [E _]]]]; auto.
+    subst c'. destruct (H c) as [_ [B [_ [_ D]]]]. rewrite D. rewrite B in Hr. auto.
+  - intros c' Hin Hr. cbn in Hin. apply in_upd_conn in Hin. destruct Hin as [Hin|[c [Hin [E Eid]]]]; auto.
+    subst c' cid. destruct (H c) as [_ [B _]]. rewrite B in Hr.
+    destruct (H0 c (get_conn_in n c Hi Hin)) as [A|[A _]]; auto. rewrite A. auto.
+  - intros c' Hin Hr. cbn in Hin. apply in_upd_conn in Hin. destruct Hin as [Hin|[c [Hin [E _]]]]; auto.
+    subst c'. unfold name_fn in *. destruct (String.eqb (c_node_name c) ""); cbn in *; auto.
+  - intros c' Hin Hr. cbn in Hin. apply in_upd_conn in Hin. destruct Hin as [Hin|[c [Hin [E _]]]]; auto.
+    subst c'. cbn in *. auto.
+  - intros c' Hin. erewrite rc_conns in Hin by eauto. apply filter_In in Hin. apply Hk. tauto.
+  - intros c' Hin Hr. unfold accept_conn in Hin. cbn in Hin. apply in_app_iff in Hin.
+    destruct Hin as [Hin|[Hin|[]]]; auto. subst c'. discriminate.
+  - intros c' Hin Hr. unfold dial_conn in Hin. cbn in Hin. apply in_app_iff in Hin.
+    destruct Hin as [Hin|[Hin|[]]]; auto. subst c'. discriminate.
+Qed.
+
+Lemma astep_K0 md n n' : astep md n n' -> K0 n -> K0 n'.
+Proof.
+  intros H Hk. destruct (astep_const _ _ _ H) as [_ [En _]]. unfold K0. rewrite En. clear En.
+  destruct H; try exact Hk.
+  - intros c' Hin Hr. cbn in Hin. apply in_upd_conn in Hin. destruct Hin as [Hin|[c [Hin [E _]]]]; auto.
+    subst c'. destruct (H c) as [_ [B [C _]]]. rewrite C. rewrite B in Hr. auto.
+  - intros c' Hin Hr. cbn in Hin. apply in_upd_conn in Hin. destruct Hin as [Hin|[c [Hin [E _]]]]; auto.
+    subst c'. destruct (H c) as [_ [B [C _]]]. rewrite C. rewrite B in Hr. auto.
+  - intros c' Hin Hr. cbn in Hin. apply in_upd_conn in Hin. destruct Hin as [Hin|[c [Hin [E _]]]]; auto.
+    subst c'. unfold name_fn in *. destruct (String.eqb (c_node_name c) ""); cbn in *; auto.
+    right. destruct (get_peer_some _ _ _ H0) as [Hp E1]. rewrite <- E1. now apply in_map.
+  - intros c' Hin Hr. cbn in Hin. apply in_upd_conn in Hin. destruct Hin as [Hin|[c [Hin [E _]]]]; auto.
+    subst c'. cbn in *. auto.
+  - intros c' Hin. erewrite rc_conns in Hin by eauto. apply filter_In in Hin. apply Hk. tauto.
+  - intros c' Hin Hr. unfold accept_conn in Hin. cbn in Hin. apply in_app_iff in Hin.
+    destruct Hin as [Hin|[Hin|[]]]; auto. subst c'. auto.
+  - intros c' Hin Hr. unfold dial_conn in Hin. cbn in Hin. apply in_app_iff in Hin.
+    destruct Hin as [Hin|[Hin|[]]]; auto. subst c'. discriminate.
+Qed.
+
+Lemma astep_K1 md n n' : astep md n n' -> P_ids n -> K2 n -> K0 n -> K1 n -> K1 n'.
+Proof.
+  intros H Hi Hk2 Hk0 Hk. destruct (astep_const _ _ _ H) as [_ [En _]]. unfold K1. rewrite En. clear En.
+  destruct H; try exact Hk.
+  - intros c' Hin Hr. cbn in Hin. apply in_upd_conn in Hin. destruct Hin as [Hin|[c [Hin [E _]]]]; auto.
+    subst c'. destruct (H c) as [_ [B [C [_ D]]]]. rewrite C, D. rewrite B in Hr. auto.
+  - intros c' Hin Hr He. cbn in Hin. apply in_upd_conn in Hin. destruct Hin as [Hin|[c [Hin [E Eid]]]]; auto.
+    subst c' cid. destruct (H c) as [_ [B [C _]]]. rewrite C. rewrite B in Hr.
+    destruct (H0 c (get_conn_in n c Hi Hin)) as [A|[_ A]].
+    + rewrite A in He. auto.
+    + destruct (A He) as [A1|[[A1 _]|[_ [A1 _]]]]; auto.
+      * exfalso. eapply Hk2; eauto.
+      * destruct (A1 Hr) as [A2|A2]; auto. destruct (Hk0 c Hin Hr); auto. congruence.
+  - intros c' Hin Hr He. cbn in Hin. apply in_upd_conn in Hin. destruct Hin as [Hin|[c [Hin [E _]]]]; auto.
+    subst c'. unfold name_fn in *. destruct (String.eqb (c_node_name c) ""); cbn in *; auto.
+    destruct (get_peer_some _ _ _ H0) as [Hp E1]. rewrite <- E1. now apply in_map.
+  - intros c' Hin Hr He. cbn in Hin. apply in_upd_conn in Hin. destruct Hin as [Hin|[c [Hin [E _]]]]; auto.
+    subst c'. cbn in *. auto.
+  - intros c' Hin. erewrite rc_conns in Hin by eauto. apply filter_In in Hin. apply Hk. tauto.
+  - intros c' Hin Hr He. unfold accept_conn in Hin. cbn in Hin. apply in_app_iff in Hin.
+    destruct Hin as [Hin|[Hin|[]]]; auto. subst c'. destruct He.
+  - intros c' Hin Hr. unfold dial_conn in Hin. cbn in Hin. apply in_app_iff in Hin.
+    destruct Hin as [Hin|[Hin|[]]]; auto. subst c'. discriminate.
+Qed.
+
+Definition WK (n : node) : Prop := W n /\ K2 n /\ K0 n /\ K1 n.
+
+Lemma astep_WK md n n' : astep md n n' -> WK n -> WK n'.
+Proof.
+  intros H [HW [H2 [H0 H1]]]. pose proof HW as [Hi _].
+  split; [eapply astep_W; eauto|]. split; [eapply astep_K2; eauto|].
+  split; [eapply astep_K0; eauto|eapply astep_K1; eauto].
+Qed.
+
+Lemma WK_init n : wf_init n -> WK n.
+Proof.
+  intros Hw. split; [now apply W_init|]. destruct Hw as [H1 _]. unfold K2, K0, K1. rewrite H1. cbn. tauto.
+Qed.
+
+Lemma reach_WK n0 n : reach n0 n -> WK n.
+Proof.
+  intros H. apply reach_trans in H. destruct H as [Hw H].
+  eapply (trans_inv MAny WK); eauto. apply astep_WK. now apply WK_init.
+Qed.
+
+(* ---- invariant 8 (C06): an inbound connection that is READY, READY_WAITING_DWA or DISCONNECTING
+   has been through a successful CER, and is named after a configured peer ---- *)
+Theorem C06_ready_inbound_known : forall n0 n, reach n0 n ->
+  forall c, List.In c (n_conns n) -> c_recv c = true ->
+  is_ready_state (c_state c) = true \/ c_state c = SDisconnecting ->
+  exists p, List.In p (n_peers n) /\ p_name p = c_node_name c.
+Proof.
+  intros n0 n H c Hin Hr Hs. destruct (reach_WK _ _ H) as [_ [_ [_ H1]]].
+  assert (He : est (c_state c)).
+  { destruct Hs as [Hs|Hs]; [destruct (c_state c); try discriminate; exact I|rewrite Hs; exact I]. }
+  pose proof (H1 c Hin Hr He) as A. apply in_map_iff in A. destruct A as [p [A B]]. eauto.
+Qed.
+
+(* ---------------------------------------------------------------------------------------- *)
 (* 7. guarded invariants: identities are stable                                              *)
 (* ---------------------------------------------------------------------------------------- *)
 Definition G_ident (n : node) : Prop :=
@@ -1334,23 +1761,44 @@ Definition G_ident (n : node) : Prop :=
 Definition G_live (n : node) : Prop :=
   forall p cid, List.In p (n_peers n) -> p_conn p = Some cid ->
   exists c, List.In c (n_conns n) /\ c_id c = cid /\ c_node_name c = p_name p.
+(* the converse: the peer of an established connection points to it *)
+Definition G_conv (n : node) : Prop :=
+  forall c p, List.In c (n_conns n) -> est (c_state c) -> List.In p (n_peers n) -> p_name p = c_node_name c ->
+  p_conn p = Some (c_id c).
 Definition G_pw (n : node) : Prop :=
   forall h, List.In h (List.map fst (n_peer_waiting n)) ->
-  h = ""%string \/ exists c, List.In c (n_conns n) /\ c_host c = h.
+  h <> ""%string /\ exists c, List.In c (n_conns n) /\ c_host c = h.
+(* an established connection has a host identity *)
+Definition KH (n : node) : Prop :=
+  forall c, List.In c (n_conns n) -> est (c_state c) -> c_host c <> ""%string.
 
-Lemma get_conn_in n c : P_ids n -> List.In c (n_conns n) -> get_conn n (c_id c) = Some c.
-Proof. intros [H _] Hin. unfold get_conn. now apply find_conn_in. Qed.
-
-Lemma astep_ident n n' : astep MGuard n n' -> P_ids n -> G_ident n -> G_ident n'.
+Lemma out_named n c : P_ne n -> P_own n -> List.In c (n_conns n) -> c_recv c = false -> c_node_name c <> ""%string.
 Proof.
-  intros H Hi Hg. destruct H; try exact Hg.
+  intros Hne Ho Hin Hr E. destruct (Ho c Hin Hr) as [p [Hp [En _]]]. apply Hne. rewrite <- E, <- En. now apply in_map.
+Qed.
+Lemma id_ok_eq n c h : P_ne n -> P_own n -> List.In c (n_conns n) -> id_ok c h -> c_node_name c = h.
+Proof. intros Hne Ho Hin [A|[A B]]; auto. exfalso. eapply out_named; eauto. Qed.
+
+Lemma name_nonempty n c : P_ne n -> P_own n -> K1 n -> List.In c (n_conns n) -> est (c_state c) ->
+  c_node_name c <> ""%string.
+Proof.
+  intros Hne Ho Hk Hin He E. apply Hne. rewrite <- E. destruct (c_recv c) eqn:Er.
+  - now apply Hk.
+  - destruct (Ho c Hin Er) as [p [Hp [En _]]]. rewrite <- En. now apply in_map.
+Qed.
+
+Lemma astep_ident md n n' : guarded md -> astep md n n' -> P_ids n -> P_ne n -> P_own n -> G_ident n -> G_ident n'.
+Proof.
+  intros G H Hi Hne Ho Hg. destruct H; try exact Hg.
+  - intros c' Hin. cbn in Hin. apply in_upd_conn in Hin. destruct Hin as [Hin|[c [Hin [E _]]]]; auto.
+    subst c'. destruct (H c) as [_ [_ [A [B _]]]]. rewrite A, B. auto.
   - intros c' Hin. cbn in Hin. apply in_upd_conn in Hin. destruct Hin as [Hin|[c [Hin [E _]]]]; auto.
     subst c'. destruct (H c) as [_ [_ [A B]]]. rewrite A, B. auto.
   - intros c' Hin. cbn in Hin. apply in_upd_conn in Hin. destruct Hin as [Hin|[c [Hin [E _]]]]; auto.
     subst c'. unfold name_fn. destruct (String.eqb (c_node_name c) "") eqn:E; auto. cbn.
     apply String.eqb_eq in E. destruct (Hg c Hin) as [A|A]; auto. left. congruence.
   - intros c' Hin. cbn in Hin. apply in_upd_conn in Hin. destruct Hin as [Hin|[c [Hin [E Eid]]]]; auto.
-    subst c'. cbn. right. symmetry. apply H0; [exact I|]. subst cid. now apply get_conn_in.
+    subst c'. cbn. right. symmetry. eapply id_ok_eq; eauto. apply H; [exact G|]. subst cid. now apply get_conn_in.
   - intros c' Hin. erewrite rc_conns in Hin by eauto. apply filter_In in Hin. apply Hg. tauto.
   - intros c' Hin. unfold accept_conn in Hin. cbn in Hin. apply in_app_iff in Hin.
     destruct Hin as [Hin|[Hin|[]]]; auto. subst c'. auto.
@@ -1368,9 +1816,10 @@ Proof.
   exists (f c). destruct (Hf c) as [A B]. rewrite A, B; eauto.
 Qed.
 
-Lemma astep_live n n' : astep MGuard n n' -> P_ids n -> P_names n -> P_ne n -> G_ident n -> G_live n -> G_live n'.
+Lemma astep_live md n n' : guarded md -> astep md n n' -> P_ids n -> P_names n -> P_ne n -> G_ident n -> G_live n -> G_live n'.
 Proof.
-  intros H Hi Hn Hne Hid Hg. destruct H; try exact Hg.
+  intros _ H Hi Hn Hne Hid Hg. destruct H; try exact Hg.
+  - apply G_live_upd; auto. intros c. destruct (H c) as [A [_ [B _]]]. auto.
   - apply G_live_upd; auto. intros c. destruct (H c) as [A [_ [B _]]]. auto.
   - apply G_live_upd; auto. intros c. unfold name_fn.
     destruct (String.eqb (c_node_name c) "") eqn:E; cbn; auto.
@@ -1412,6 +1861,82 @@ Proof.
       cbn. auto.
 Qed.
 
+(* ---- the converse ---- *)
+Lemma G_conv_upd n cid f :
+  (forall c, List.In c (n_conns n) -> c_id c = cid ->
+     c_id (f c) = c_id c /\ c_node_name (f c) = c_node_name c /\
+     (est (c_state (f c)) -> est (c_state c) \/
+        forall p, List.In p (n_peers n) -> p_name p = c_node_name c -> p_conn p = Some (c_id c))) ->
+  G_conv n -> G_conv (set_conns n (upd_conn (n_conns n) cid f)).
+Proof.
+  intros Hf Hg c' p Hin He Hp En. cbn in Hin, Hp. apply in_upd_conn in Hin.
+  destruct Hin as [Hin|[c [Hin [E Eid]]]]; [eapply Hg; eauto|]. subst c'.
+  destruct (Hf c Hin Eid) as [A [B C]]. rewrite A. rewrite B in En.
+  destruct (C He) as [D|D]; [eapply Hg; eauto|apply D; auto].
+Qed.
+
+Lemma own_conv n c : P_names n -> P_own n -> List.In c (n_conns n) -> c_recv c = false ->
+  forall p, List.In p (n_peers n) -> p_name p = c_node_name c -> p_conn p = Some (c_id c).
+Proof.
+  intros Hn Ho Hin Hr p Hp En. destruct (Ho c Hin Hr) as [q [Hq [Eq Ec]]].
+  assert (p = q) by (eapply peer_unique; eauto; congruence). subst q. exact Ec.
+Qed.
+
+Lemma astep_conv md n n' : guarded md -> astep md n n' ->
+  P_ids n -> P_names n -> P_ne n -> P_own n -> K2 n -> K1 n -> G_live n -> G_conv n -> G_conv n'.
+Proof.
+  intros G H Hi Hn Hne Ho Hk2 Hk1 Hl Hg. destruct H; try exact Hg.
+  - (* soft *)
+    apply G_conv_upd; auto. intros c _ _. destruct (H c) as [A [_ [B [_ D]]]]. rewrite D. auto.
+  - (* state *)
+    apply G_conv_upd; auto. intros c Hin Eid. destruct (H c) as [A [_ [B _]]]. split; auto. split; auto.
+    intros He. subst cid. destruct (H0 c (get_conn_in n c Hi Hin)) as [S|[_ S]]; [rewrite S in He; auto|].
+    assert (Er : c_recv c = true \/ c_recv c = false) by (destruct (c_recv c); auto).
+    destruct Er as [Er|Er]; [|right; now apply own_conv].
+    destruct (S He) as [S1|[[S1 _]|[F1 [F2 F3]]]]; auto.
+    + exfalso. eapply Hk2; eauto.
+    + right. intros p Hp En. destruct (F3 G Er) as [U V].
+      assert (Eh : c_node_name c = c_host c).
+      { destruct (F1 G) as [X|[_ X]]; [auto|congruence]. }
+      assert (Hnn : c_node_name c <> ""%string).
+      { destruct (F2 Er) as [X|X]; auto. intro E. apply Hne. now rewrite <- E. }
+      pose proof (get_peer_in n p Hn Hp) as Egp. rewrite En, Eh in Egp.
+      assert (Hpc : p_conn p <> None) by (eapply V; eauto; congruence).
+      destruct (p_conn p) as [k|] eqn:Ek; [|congruence].
+      destruct (Hl p k Hp Ek) as [c1 [Hin1 [E1 E2]]]. f_equal. rewrite <- E1. apply U; auto. congruence.
+  - (* name *)
+    intros c' q Hin He Hq En. cbn in Hin, Hq. apply in_upd_conn in Hin.
+    destruct Hin as [Hin|[c [Hin [E _]]]]; [eapply Hg; eauto|]. subst c'. unfold name_fn in *.
+    destruct (String.eqb (c_node_name c) "") eqn:E0.
+    + exfalso. cbn in He. apply String.eqb_eq in E0. eapply name_nonempty; eauto.
+    + eapply Hg; eauto.
+  - (* host *)
+    apply G_conv_upd; auto.
+  - (* peer_soft *)
+    intros c q' Hin He Hq En. cbn in Hin, Hq. apply in_upd_peer_weak in Hq.
+    destruct Hq as [Hq|[q [Hq E]]]; [eapply Hg; eauto|]. subst q'. destruct (H q) as [A [B _]].
+    rewrite B. rewrite A in En. eapply Hg; eauto.
+  - (* assign *)
+    intros c0 q' Hin He Hq En. cbn in Hin, Hq. apply in_upd_peer_weak in Hq.
+    destruct Hq as [Hq|[q [Hq E]]]; [eapply Hg; eauto|]. subst q'. unfold assign_fn in *. cbn in En |- *.
+    rewrite (Hg c0 q Hin He Hq En). reflexivity.
+  - (* remove *)
+    intros c0 q' Hin He Hq En. erewrite rc_conns in Hin by eauto. erewrite rc_peers in Hq by eauto.
+    apply filter_In in Hin. destruct Hin as [Hin Hd]. apply negb_true_iff, Nat.eqb_neq in Hd.
+    apply in_removed_peers in Hq. destruct Hq as [Hq|[q [Ef [E Ec]]]]; [eapply Hg; eauto|].
+    exfalso. subst q'. cbn in En. apply find_conn_peer_some in Ef. destruct Ef as [_ [Hq _]].
+    pose proof (Hg c0 q Hin He Hq En) as X. congruence.
+  - (* accept *)
+    intros c0 q Hin He Hq En. unfold accept_conn in Hin, Hq. cbn in Hin, Hq. apply in_app_iff in Hin.
+    destruct Hin as [Hin|[Hin|[]]]; [eapply Hg; eauto|]. subst c0. destruct He.
+  - (* dial *)
+    intros c0 q' Hin He Hq En. unfold dial_conn in Hin, Hq. cbn in Hin, Hq. apply in_app_iff in Hin.
+    destruct Hin as [Hin|[Hin|[]]]; [|subst c0; destruct He].
+    apply in_upd_peer_find in Hq. destruct Hq as [Hq|[q [Ef E]]]; [eapply Hg; eauto|].
+    exfalso. subst q'. cbn in En. unfold get_peer in H. rewrite H in Ef. inversion Ef; subst q.
+    destruct (get_peer_some _ _ _ H) as [Hp _]. pose proof (Hg c0 p Hin He Hp En) as X. congruence.
+Qed.
+
 Lemma in_pw_add pw host k h : List.In h (List.map fst (pw_add pw host k)) -> List.In h (List.map fst pw) \/ h = host.
 Proof.
   unfold pw_add. destruct (List.existsb _ pw).
@@ -1420,133 +1945,183 @@ Proof.
   - rewrite map_app. cbn. intros H. apply in_app_iff in H. destruct H as [H|[H|[]]]; auto.
 Qed.
 
+(* ---- with the CONNECTING clause: host identities of established connections, _peer_waiting ---- *)
+Lemma astep_KH md n n' : noconn md -> astep md n n' -> P_ids n -> P_ne n -> P_own n -> K1 n -> G_ident n -> KH n -> KH n'.
+Proof.
+  intros NC H Hi Hne Ho Hk1 Hid Hk. pose proof (noconn_guarded _ NC) as G. destruct H; try exact Hk.
+  - intros c' Hin. cbn in Hin. apply in_upd_conn in Hin. destruct Hin as [Hin|[c [Hin [E _]]]]; auto.
+    subst c'. destruct (H c) as [_ [_ [_ [C D]]]]. rewrite C, D. auto.
+  - intros c' Hin He. cbn in Hin. apply in_upd_conn in Hin. destruct Hin as [Hin|[c [Hin [E Eid]]]]; auto.
+    subst c' cid. destruct (H c) as [_ [B [C D]]]. rewrite D.
+    destruct (H0 c (get_conn_in n c Hi Hin)) as [A|[_ A]].
+    + rewrite A in He. auto.
+    + destruct (A He) as [A1|[[_ A1]|[A1 [A2 _]]]].
+      * auto.
+      * exfalso. apply A1. exact NC.
+      * rewrite <- (id_ok_eq n c _ Hne Ho Hin (A1 G)). intro E.
+        assert (Er : c_recv c = true \/ c_recv c = false) by (destruct (c_recv c); auto). destruct Er as [Er|Er].
+        -- destruct (A2 Er) as [A3|A3]; auto. apply Hne. now rewrite <- E.
+        -- eapply out_named; eauto.
+  - intros c' Hin He. cbn in Hin. apply in_upd_conn in Hin. destruct Hin as [Hin|[c [Hin [E _]]]]; auto.
+    subst c'. unfold name_fn in *. destruct (String.eqb (c_node_name c) ""); cbn in *; auto.
+  - intros c' Hin He. cbn in Hin. apply in_upd_conn in Hin. destruct Hin as [Hin|[c [Hin [E Eid]]]]; auto.
+    subst c' cid. cbn in *. rewrite <- (id_ok_eq n c _ Hne Ho Hin (H G c (get_conn_in n c Hi Hin))).
+    eapply name_nonempty; eauto.
+  - intros c' Hin. erewrite rc_conns in Hin by eauto. apply filter_In in Hin. apply Hk. tauto.
+  - intros c' Hin He. unfold accept_conn in Hin. cbn in Hin. apply in_app_iff in Hin.
+    destruct Hin as [Hin|[Hin|[]]]; auto. subst c'. destruct He.
+  - intros c' Hin He. unfold dial_conn in Hin. cbn in Hin. apply in_app_iff in Hin.
+    destruct Hin as [Hin|[Hin|[]]]; auto. subst c'. destruct He.
+Qed.
+
 Lemma G_pw_upd n cid f : (forall c, c_host (f c) = c_host c) -> G_pw n -> G_pw (set_conns n (upd_conn (n_conns n) cid f)).
 Proof.
-  intros Hf Hg h Hh. cbn in Hh |- *. destruct (Hg h Hh) as [A|[c [Hin E]]]; auto. right.
+  intros Hf Hg h Hh. cbn in Hh |- *. destruct (Hg h Hh) as [A [c [Hin E]]]. split; auto.
   destruct (upd_conn_image (n_conns n) cid f c Hin) as [Hi'|[_ Hi']]; [exists c; auto|].
   exists (f c). rewrite Hf. auto.
 Qed.
 
-Lemma astep_pw n n' : astep MGuard n n' -> P_ids n -> G_ident n -> G_pw n -> G_pw n'.
+Lemma astep_pw md n n' : noconn md -> astep md n n' -> P_ids n -> P_ne n -> P_own n -> G_ident n -> KH n -> G_pw n -> G_pw n'.
 Proof.
-  intros H Hi Hid Hg. destruct H; try exact Hg.
+  intros NC H Hi Hne Ho Hid Hkh Hg. pose proof (noconn_guarded _ NC) as G. destruct H; try exact Hg.
+  - apply G_pw_upd; auto. intros c. apply H.
   - apply G_pw_upd; auto. intros c. apply H.
   - apply G_pw_upd; auto. intros c. unfold name_fn. destruct (String.eqb _ _); auto.
   - (* host *)
-    intros h Hh. cbn in Hh |- *. destruct (Hg h Hh) as [A|[c [Hin E]]]; auto.
-    match goal with |- _ \/ exists _, List.In _ (upd_conn _ _ ?F) /\ _ =>
-      destruct (upd_conn_image (n_conns n) cid F c Hin) as [Hi'|[Eid Hi']] end; [right; exists c; auto|].
-    destruct (Hid c Hin) as [B|B]; [left; congruence|]. right. eexists. split; [exact Hi'|]. cbn.
-    rewrite <- E, B. symmetry. apply H0; [exact I|]. subst cid. now apply get_conn_in.
+    intros h Hh. cbn in Hh |- *. destruct (Hg h Hh) as [A [c [Hin E]]]. split; auto.
+    match goal with |- exists _, List.In _ (upd_conn _ _ ?F) /\ _ =>
+      destruct (upd_conn_image (n_conns n) cid F c Hin) as [Hi'|[Eid Hi']] end; [exists c; auto|].
+    destruct (Hid c Hin) as [B|B]; [congruence|]. eexists. split; [exact Hi'|]. cbn.
+    rewrite <- E, B. symmetry. eapply id_ok_eq; eauto. apply H; [exact G|]. subst cid. now apply get_conn_in.
   - intros h Hh. cbn in Hh |- *. apply H in Hh. auto.
   - intros h Hh. cbn in Hh |- *. apply in_pw_add in Hh. destruct Hh as [Hh|Hh]; auto.
-    right. exists c. apply get_conn_some in H. subst h. tauto.
+    destruct (get_conn_some _ _ _ H) as [Hin _]. subst h. split; [|exists c; auto].
+    destruct H0 as [A|[_ A]]; [now apply Hkh|]. exfalso. apply A. exact NC.
   - (* remove *)
     intros h Hh. erewrite rc_pw in Hh by eauto. erewrite rc_conns by eauto.
-    apply in_map_iff in Hh. destruct Hh as [e [E Hh]]. apply filter_In in Hh. destruct Hh as [Hh Hne].
-    apply negb_true_iff, String.eqb_neq in Hne.
-    destruct (Hg h) as [A|[c0 [Hin E0]]]; [apply in_map_iff; eauto|auto|].
-    right. exists c0. split; auto. apply filter_In. split; auto. apply negb_true_iff, Nat.eqb_neq.
+    apply in_map_iff in Hh. destruct Hh as [e [E Hh]]. apply filter_In in Hh. destruct Hh as [Hh Hne'].
+    apply negb_true_iff, String.eqb_neq in Hne'.
+    destruct (Hg h) as [A [c0 [Hin E0]]]; [apply in_map_iff; eauto|]. split; auto.
+    exists c0. split; auto. apply filter_In. split; auto. apply negb_true_iff, Nat.eqb_neq.
     intro D. destruct (get_conn_some _ _ _ H) as [Hin' Eid].
     assert (c0 = c) by (eapply conn_unique; eauto; [apply Hi|congruence]). subst c0. congruence.
-  - intros hh Hh. unfold accept_conn in Hh |- *. cbn in Hh |- *. destruct (Hg hh Hh) as [A|[c0 [Hin E0]]]; auto.
-    right. exists c0. split; auto. apply in_app_iff. auto.
-  - intros hh Hh. unfold dial_conn in Hh |- *. cbn in Hh |- *. destruct (Hg hh Hh) as [A|[c0 [Hin E0]]]; auto.
-    right. exists c0. split; auto. apply in_app_iff. auto.
+  - intros hh Hh. unfold accept_conn in Hh |- *. cbn in Hh |- *. destruct (Hg hh Hh) as [A [c0 [Hin E0]]].
+    split; auto. exists c0. split; auto. apply in_app_iff. auto.
+  - intros hh Hh. unfold dial_conn in Hh |- *. cbn in Hh |- *. destruct (Hg hh Hh) as [A [c0 [Hin E0]]].
+    split; auto. exists c0. split; auto. apply in_app_iff. auto.
 Qed.
 
-Definition GI (n : node) : Prop := WO n /\ G_ident n /\ G_live n /\ G_pw n.
+(* the invariants under the identity guard ... *)
+Definition GC (n : node) : Prop := WO n /\ (K2 n /\ K0 n /\ K1 n) /\ G_ident n /\ G_live n /\ G_conv n.
+(* ... and with the CONNECTING clause *)
+Definition GI (n : node) : Prop := GC n /\ KH n /\ G_pw n.
 
-Lemma astep_GI n n' : astep MGuard n n' -> GI n -> GI n'.
+Lemma astep_GC md n n' : guarded md -> astep md n n' -> GC n -> GC n'.
 Proof.
-  intros H [HW [H1 [H2 H3]]]. pose proof HW as [[Hi [Hn _]] [Hne _]].
-  split; [eapply astep_WO; eauto|]. split; [eapply astep_ident; eauto|].
-  split; [eapply astep_live; eauto|eapply astep_pw; eauto].
+  intros G H [HW [[K2' [K0' K1']] [H1 [H2 H3]]]]. pose proof HW as [[Hi [Hn _]] [Hne Ho]].
+  split; [eapply astep_WO; eauto|].
+  split; [split; [eapply astep_K2; eauto|split; [eapply astep_K0; eauto|eapply astep_K1; eauto]]|].
+  split; [eapply astep_ident; eauto|].
+  split; [eapply astep_live; eauto|eapply astep_conv; eauto].
+Qed.
+
+Lemma astep_GI md n n' : noconn md -> astep md n n' -> GI n -> GI n'.
+Proof.
+  intros NC H [HC [H3 H4]]. pose proof HC as [HW [[K2' [K0' K1']] [H1 [H2 _]]]].
+  pose proof HW as [[Hi [Hn _]] [Hne Ho]].
+  split; [eapply astep_GC; eauto; now apply noconn_guarded|].
+  split; [eapply astep_KH; eauto|eapply astep_pw; eauto].
+Qed.
+
+Lemma GC_init n : wf_init n -> P_ne n -> GC n.
+Proof.
+  intros Hw Hne. split; [now apply WO_init|]. destruct (WK_init n Hw) as [_ HK]. split; [exact HK|].
+  destruct Hw as [H1 [_ [_ [H4 [_ [_ [_ [H8 _]]]]]]]].
+  unfold G_ident, G_live, G_conv. rewrite H1. cbn. repeat split; try tauto.
+  intros p cid Hp Hc. apply H8 in Hp. destruct Hp as [A _]. congruence.
 Qed.
 
 Lemma GI_init n : wf_init n -> P_ne n -> GI n.
 Proof.
-  intros Hw Hne. split; [now apply WO_init|]. destruct Hw as [H1 [_ [_ [H4 [_ [_ [_ [H8 _]]]]]]]].
-  unfold G_ident, G_live, G_pw. rewrite H1, H4. cbn. repeat split; try tauto.
-  intros p cid Hp Hc. apply H8 in Hp. destruct Hp as [A _]. congruence.
+  intros Hw Hne. split; [now apply GC_init|].
+  destruct Hw as [H1 [_ [_ [H4 _]]]]. unfold KH, G_pw. rewrite H1, H4. cbn. tauto.
 Qed.
 
 (* ---------------------------------------------------------------------------------------- *)
 (* 8. the guard on the environment's inputs                                                   *)
 (* ---------------------------------------------------------------------------------------- *)
-(* (i)  a connection receives at most one capabilities-exchange message, ever (`seen` is the
-        ghost set of connection ids that already received one);
-   (ii) a capabilities-exchange message received on an OUTBOUND connection carries the name of the
-        dialled peer as Origin-Host;
-   (iii) a capabilities-exchange message received on an INBOUND connection is a request (CER), with
-        any Origin-Host.
-   The connection's direction and the dialled peer's name are read off the run (c_recv, c_node_name
-   at the time of the read); both are known to the environment (ODial). *)
-Definition is_ce (m : msg) : bool := cmd_eqb (m_cmd m) CE.
-Definition ce_count (ms : list msg) : nat := List.length (List.filter is_ce ms).
+(* cer_guard (clauses i, ii):
+   (i)  a connection receives at most one capabilities-exchange REQUEST, ever (`seen` is the ghost set
+        of connection ids that already received one) -- a second CER on a connection is outside the
+        specification; the model accepts it and overwrites the host identity (C13_second_cer_refuted);
+   (ii) no capabilities-exchange request is read from an OUTBOUND connection (one the node dialled) --
+        the gate lets a CER through on an established outbound connection, and the handler files the
+        connection under the CER's Origin-Host (C13_outbound_cer_refuted).
+   ce_guard = cer_guard and
+   (iii) nothing is read from a connection whose connect() has not completed (state CONNECTING)
+        (C19_connecting_read_refuted).
+   Capabilities-exchange ANSWERS are unrestricted: the repaired receive_cea ignores them unless the
+   answer is awaited, and closes the connection if the Origin-Host is not the dialled peer.
+   The connection's direction is read off the run (c_recv at the time of the read); it is known to the
+   environment (ODial / accept). *)
+Definition is_cer (m : msg) : bool := cmd_eqb (m_cmd m) CE && m_req m.
+Definition cer_count (ms : list msg) : nat := List.length (List.filter is_cer ms).
 
-Definition ev_guard (n : node) (seen : list nat) (e : event) : Prop :=
+Definition ev_guard (nc : bool) (n : node) (seen : list nat) (e : event) : Prop :=
   match e with
   | ERecv cid ms =>
       forall c, get_conn n cid = Some c ->
-        ce_count ms + (if mem_nat cid seen then 1 else 0) <= 1 /\
-        forall m, List.In m ms -> m_cmd m = CE ->
-          if c_recv c then m_req m = true
-          else forall o, m_origin m = Present o -> o = c_node_name c
+        (if nc then c_state c <> SConnecting else True) /\
+        cer_count ms + (if mem_nat cid seen then 1 else 0) <= 1 /\
+        (c_recv c = false -> cer_count ms = 0)
   | _ => True
   end.
 Definition ev_seen (e : event) : list nat :=
-  match e with ERecv cid ms => if List.existsb is_ce ms then [cid] else [] | _ => [] end.
+  match e with ERecv cid ms => if List.existsb is_cer ms then [cid] else [] | _ => [] end.
 
-Fixpoint ce_guard_from (n : node) (seen : list nat) (evs : list (dials * event)) : Prop :=
+Fixpoint guard_from (nc : bool) (n : node) (seen : list nat) (evs : list (dials * event)) : Prop :=
   match evs with
   | [] => True
-  | de :: r => ev_guard n seen (snd de) /\
-               ce_guard_from (fst (step n (fst de) (snd de))) (ev_seen (snd de) ++ seen)%list r
+  | de :: r => ev_guard nc n seen (snd de) /\
+               guard_from nc (fst (step n (fst de) (snd de))) (ev_seen (snd de) ++ seen)%list r
   end.
-Definition ce_guard (n0 : node) (evs : list (dials * event)) : Prop := ce_guard_from n0 [] evs.
+Definition cer_guard (n0 : node) (evs : list (dials * event)) : Prop := guard_from false n0 [] evs.
+Definition ce_guard (n0 : node) (evs : list (dials * event)) : Prop := guard_from true n0 [] evs.
 
 Definition wf_init_g (n : node) : Prop := wf_init n /\ ~ List.In ""%string (List.map p_name (n_peers n)).
+(* reach_c: no peer is named "", clauses (i) and (ii);  reach_g: in addition clause (iii) *)
+Definition reach_c (n0 n : node) : Prop :=
+  exists evs : list (dials * event), wf_init_g n0 /\ cer_guard n0 evs /\ n = fst (run n0 evs).
 Definition reach_g (n0 n : node) : Prop :=
   exists evs : list (dials * event), wf_init_g n0 /\ ce_guard n0 evs /\ n = fst (run n0 evs).
 
-Lemma is_ce_iff m : is_ce m = true <-> m_cmd m = CE.
-Proof. unfold is_ce. destruct (m_cmd m); cbn; split; intros; try discriminate; auto. Qed.
-
-Lemma msgs_pre_noce md ms : List.existsb is_ce ms = false -> forall n cid, msgs_pre md n cid ms.
+Lemma guard_from_weaken evs : forall n seen, guard_from true n seen evs -> guard_from false n seen evs.
 Proof.
-  induction ms as [|m r IH]; cbn; auto. intros H n cid. apply orb_false_iff in H. destruct H as [H1 H2].
-  split; auto. intros Hc. apply is_ce_iff in Hc. congruence.
+  induction evs as [|de r IH]; intros n seen; cbn [guard_from]; auto. intros [H1 H2]. split; auto.
+  destruct (snd de); cbn in *; auto. intros c Hc. destruct (H1 c Hc) as [_ A]. auto.
 Qed.
+Lemma reach_g_reach_c n0 n : reach_g n0 n -> reach_c n0 n.
+Proof. intros [evs [Hw [Hg E]]]. exists evs. split; auto. split; auto. now apply guard_from_weaken. Qed.
+Lemma reach_c_reach n0 n : reach_c n0 n -> reach n0 n.
+Proof. intros [evs [[Hw _] [_ E]]]. exists evs. auto. Qed.
+Lemma reach_g_reach n0 n : reach_g n0 n -> reach n0 n.
+Proof. intros H. apply reach_c_reach. now apply reach_g_reach_c. Qed.
 
-Lemma existsb_count ms : List.existsb is_ce ms = true -> 1 <= ce_count ms.
+Lemma is_cer_false m : is_cer m = false -> m_cmd m = CE -> m_req m = true -> False.
+Proof. unfold is_cer. intros H E R. rewrite E, R in H. discriminate. Qed.
+
+Lemma existsb_count ms : List.existsb is_cer ms = true -> 1 <= cer_count ms.
 Proof.
-  unfold ce_count. induction ms as [|m r IH]; cbn; [discriminate|]. destruct (is_ce m); cbn; [lia|auto].
-Qed.
-Lemma count_existsb ms : ce_count ms = 0 -> List.existsb is_ce ms = false.
-Proof.
-  intros H. destruct (List.existsb is_ce ms) eqn:E; auto. apply existsb_count in E. lia.
+  unfold cer_count. induction ms as [|m r IH]; cbn; [discriminate|]. destruct (is_cer m); cbn; [lia|auto].
 Qed.
 
 Lemma mem_nat_in x l : List.In x l -> mem_nat x l = true.
 Proof. intros H. unfold mem_nat. apply existsb_exists. exists x. split; auto. apply Nat.eqb_refl. Qed.
 
-(* a quiet derivation keeps the direction and the node name of connection cid *)
+(* a derivation that writes no node name keeps the direction and the node name of connection cid *)
 Definition keeps (cid : nat) (c : conn) (n : node) : Prop :=
   cid < n_next_cid n /\
   forall c', get_conn n cid = Some c' -> c_recv c' = c_recv c /\ c_node_name c' = c_node_name c.
-
-Lemma find_filter_id l cid k c' :
-  List.find (fun c => Nat.eqb (c_id c) cid) (List.filter (fun x => negb (Nat.eqb (c_id x) k)) l) = Some c' ->
-  List.find (fun c => Nat.eqb (c_id c) cid) l = Some c'.
-Proof.
-  induction l as [|a l IH]; cbn; auto.
-  destruct (Nat.eqb (c_id a) k) eqn:Ek; cbn.
-  - intros H. destruct (Nat.eqb (c_id a) cid) eqn:Ec; auto. exfalso.
-    apply find_some in H. destruct H as [H1 H2]. apply filter_In in H1. destruct H1 as [_ H1].
-    apply Nat.eqb_eq in Ek, Ec, H2. apply negb_true_iff, Nat.eqb_neq in H1. congruence.
-  - destruct (Nat.eqb (c_id a) cid); auto.
-Qed.
 
 Lemma find_app_fresh l x cid : c_id x <> cid ->
   List.find (fun c => Nat.eqb (c_id c) cid) (l ++ [x]) = List.find (fun c => Nat.eqb (c_id c) cid) l.
@@ -1556,20 +2131,25 @@ Proof.
   - destruct (Nat.eqb (c_id a) cid); auto.
 Qed.
 
-Lemma keeps_upd cid c n k f : soft f -> keeps cid c n -> keeps cid c (set_conns n (upd_conn (n_conns n) k f)).
+Lemma keeps_upd' cid c n k f :
+  (forall x, c_id (f x) = c_id x /\ c_recv (f x) = c_recv x /\ c_node_name (f x) = c_node_name x) ->
+  keeps cid c n -> keeps cid c (set_conns n (upd_conn (n_conns n) k f)).
 Proof.
   intros Hf [H1 H2]. split; auto. intros c'. destruct (Nat.eq_dec k cid) as [D|D].
-  - subst k. rewrite get_conn_upd by now apply soft_keeps. destruct (get_conn n cid) as [c0|]; cbn; [|discriminate].
-    intros E; inversion E; subst c'. destruct (Hf c0) as [_ [A [B _]]]. rewrite A, B. auto.
-  - unfold get_conn. cbn. rewrite find_upd_conn_other; auto. now apply soft_keeps.
+  - subst k. rewrite get_conn_upd by (intro x; apply Hf). destruct (get_conn n cid) as [c0|]; cbn; [|discriminate].
+    intros E; inversion E; subst c'. destruct (Hf c0) as [_ [A B]]. rewrite A, B. auto.
+  - unfold get_conn. cbn. rewrite find_upd_conn_other; auto. intro x; apply Hf.
 Qed.
+Lemma keeps_upd cid c n k f : isoft f -> keeps cid c n -> keeps cid c (set_conns n (upd_conn (n_conns n) k f)).
+Proof. intros Hf. apply keeps_upd'. intros x. destruct (Hf x) as [A [B [C _]]]. auto. Qed.
 
-Lemma astep_keeps cid c n n' : astep MQuiet n n' -> keeps cid c n -> keeps cid c n'.
+Lemma astep_keeps md cid c n n' : (forall k, ~ writes md k) -> astep md n n' -> keeps cid c n -> keeps cid c n'.
 Proof.
-  intros H Hk. destruct H; try exact Hk.
+  intros Hw H Hk. destruct H; try exact Hk.
+  - apply keeps_upd; auto. now apply soft_isoft.
   - now apply keeps_upd.
-  - destruct H.
-  - destruct H.
+  - destruct (Hw _ H).
+  - apply keeps_upd'; auto.
   - destruct Hk as [H1 H2]. split; [erewrite rc_next by eauto; auto|].
     intros c'. unfold get_conn. erewrite rc_conns by eauto. intros E. apply find_filter_id in E. now apply H2.
   - destruct Hk as [H1 H2]. split; [cbn; lia|exact H2].
@@ -1579,30 +2159,87 @@ Proof.
     rewrite find_app_fresh by (cbn; lia). apply H2.
 Qed.
 
-Lemma trans_keeps cid c n n' : trans MQuiet n n' -> keeps cid c n -> keeps cid c n'.
-Proof. apply trans_inv. apply astep_keeps. Qed.
+Lemma trans_keeps nc cid c n n' : trans (MG nc WNone) n n' -> keeps cid c n -> keeps cid c n'.
+Proof. apply trans_inv. intros a b. apply astep_keeps. intros k []. Qed.
 
-Lemma guard_msgs_pre cid c : forall ms n1,
-  keeps cid c n1 -> (c_recv c = true -> c_node_name c = ""%string) -> ce_count ms <= 1 ->
-  (forall m, List.In m ms -> m_cmd m = CE ->
-     if c_recv c then m_req m = true else forall o, m_origin m = Present o -> o = c_node_name c) ->
-  msgs_pre (MOn cid) n1 cid ms.
+(* connection cid, once past CONNECTING, never returns to it (any mode) *)
+Definition ncon (cid : nat) (n : node) : Prop :=
+  cid < n_next_cid n /\ forall c', get_conn n cid = Some c' -> c_state c' <> SConnecting.
+
+Lemma get_conn_upd_cases n k f cid c' : keeps_id f ->
+  get_conn (set_conns n (upd_conn (n_conns n) k f)) cid = Some c' ->
+  (k = cid /\ exists c, get_conn n cid = Some c /\ c' = f c) \/ get_conn n cid = Some c'.
 Proof.
-  induction ms as [|m r IH]; intros n1 Hk Hin Hc Hg; cbn [msgs_pre]; auto. split.
-  - intros Hce. pose proof (Hg m (or_introl eq_refl) Hce) as Hm. destruct Hk as [_ Hk].
-    destruct (m_req m) eqn:Er.
-    + intros host Eo. split; [reflexivity|]. intros _ c' Ec. destruct (Hk c' Ec) as [A B]. rewrite B.
-      destruct (c_recv c); [right; auto|left; symmetry; auto].
-    + split; [reflexivity|]. intros _ o c' Eo Ec. destruct (Hk c' Ec) as [A B]. rewrite B.
-      destruct (c_recv c); [discriminate|symmetry; auto].
-  - unfold ce_count in Hc. cbn [List.filter] in Hc. destruct (is_ce m) eqn:Ei.
-    + cbn in Hc. apply msgs_pre_noce. apply count_existsb. unfold ce_count. lia.
-    + apply IH; auto.
-      * eapply trans_keeps; eauto. apply dispatch_t; [|constructor]. intros Hce. apply is_ce_iff in Hce. congruence.
-      * intros m' Hm'. apply Hg. now right.
+  intros Hf. destruct (Nat.eq_dec k cid) as [D|D].
+  - subst k. rewrite get_conn_upd by auto. destruct (get_conn n cid) as [c|]; cbn; [|discriminate].
+    intros E; inversion E. left. split; auto. exists c. auto.
+  - unfold get_conn. cbn. rewrite find_upd_conn_other; auto.
 Qed.
 
-(* connections that have not received a capabilities-exchange message: inbound ones are unnamed *)
+Lemma ncon_upd cid n k f : keeps_id f ->
+  (forall c, get_conn n k = Some c -> c_state (f c) = c_state c \/ c_state (f c) <> SConnecting) ->
+  ncon cid n -> ncon cid (set_conns n (upd_conn (n_conns n) k f)).
+Proof.
+  intros Hf Hs [H1 H2]. split; auto. intros c' Hc. apply get_conn_upd_cases in Hc; auto.
+  destruct Hc as [[E [c [Hc E']]]|Hc]; [|now apply H2]. subst k c'.
+  destruct (Hs c Hc) as [A|A]; auto. rewrite A. now apply H2.
+Qed.
+
+Lemma astep_ncon md cid n n' : astep md n n' -> ncon cid n -> ncon cid n'.
+Proof.
+  intros H Hk. destruct H; try exact Hk.
+  - apply ncon_upd; auto. now apply soft_keeps. intros c _. left. apply H.
+  - apply ncon_upd; auto. now apply isoft_keeps. intros c Hc. destruct (H0 c Hc) as [A|[A _]]; auto.
+  - apply ncon_upd; auto. apply keeps_id_name_fn. intros c _. left. unfold name_fn. destruct (String.eqb _ _); auto.
+  - apply ncon_upd; auto. apply keeps_id_host.
+  - destruct Hk as [H1 H2]. split; [erewrite rc_next by eauto; auto|].
+    intros c'. unfold get_conn. erewrite rc_conns by eauto. intros E. apply find_filter_id in E. now apply H2.
+  - destruct Hk as [H1 H2]. split; [cbn; lia|exact H2].
+  - destruct Hk as [H1 H2]. unfold accept_conn. split; [cbn; lia|]. intros c'. unfold get_conn. cbn.
+    rewrite find_app_fresh by (cbn; lia). apply H2.
+  - destruct Hk as [H1 H2]. unfold dial_conn. split; [cbn; lia|]. intros c'. unfold get_conn. cbn.
+    rewrite find_app_fresh by (cbn; lia). apply H2.
+Qed.
+
+Lemma trans_ncon md cid n n' : trans md n n' -> ncon cid n -> ncon cid n'.
+Proof. apply trans_inv. intros a b. apply astep_ncon. Qed.
+
+Lemma msg_pre_noce md n cid m : (noconn md -> ncon cid n) -> is_cer m = false -> msg_pre md n cid m.
+Proof.
+  intros Hn Hc. split; [intros G; apply (Hn G)|]. intros E R. exfalso. eapply is_cer_false; eauto.
+Qed.
+
+Lemma msgs_pre_noce md ms : List.existsb is_cer ms = false ->
+  forall n cid, (noconn md -> ncon cid n) -> msgs_pre md n cid ms.
+Proof.
+  induction ms as [|m r IH]; cbn; auto. intros H n cid Hn. apply orb_false_iff in H. destruct H as [H1 H2].
+  assert (Hm : msg_pre md n cid m) by now apply msg_pre_noce.
+  split; auto. apply IH; auto. intros G. eapply trans_ncon; [|exact (Hn G)]. apply dispatch_t; [exact Hm|constructor].
+Qed.
+
+Lemma guard_msgs_pre nc cid c : forall ms n1,
+  (noconn (MG nc WNone) -> ncon cid n1) -> (keeps cid c n1 \/ cer_count ms = 0) ->
+  (1 <= cer_count ms -> c_node_name c = ""%string) -> cer_count ms <= 1 ->
+  msgs_pre (MG nc (WOn cid)) n1 cid ms.
+Proof.
+  induction ms as [|m r IH]; intros n1 Hn Hk Hnm Hc; cbn [msgs_pre]; auto.
+  unfold cer_count in Hc, Hk, Hnm. cbn [List.filter] in Hc, Hk, Hnm.
+  assert (Hm : msg_pre (MG nc (WOn cid)) n1 cid m).
+  { destruct (is_cer m) eqn:Ei; [|apply msg_pre_noce; auto]. split; [intros G; apply (Hn G)|].
+    intros _ _ host _. split; [reflexivity|]. intros _ c' Ec.
+    destruct Hk as [[_ Hk]|Hk]; [|cbn in Hk; lia].
+    destruct (Hk c' Ec) as [A B]. rewrite B. right. apply Hnm. cbn. lia. }
+  split; auto. apply IH; auto.
+  - intros G. eapply trans_ncon; [|exact (Hn G)]. apply dispatch_t; [exact Hm|constructor].
+  - destruct (is_cer m) eqn:Ei.
+    + right. cbn in Hc. unfold cer_count. lia.
+    + destruct Hk as [Hk|Hk]; [|right; exact Hk]. left.
+      eapply (trans_keeps nc); [|exact Hk]. apply dispatch_t; [|constructor]. now apply msg_pre_noce.
+  - intros Hr. apply Hnm. destruct (is_cer m); cbn; unfold cer_count in Hr; lia.
+  - destruct (is_cer m); cbn in Hc; unfold cer_count; lia.
+Qed.
+
+(* connections that have not received a capabilities-exchange request: inbound ones are unnamed *)
 Definition S_seen (seen : list nat) (n : node) : Prop :=
   forall c, List.In c (n_conns n) -> c_recv c = true -> c_node_name c = ""%string \/ List.In (c_id c) seen.
 
@@ -1610,6 +2247,8 @@ Lemma astep_seen md seen n n' : astep md n n' -> (forall k, writes md k -> List.
   S_seen seen n -> S_seen seen n'.
 Proof.
   intros H Hw Hs. destruct H; try exact Hs.
+  - intros c' Hin Hr. cbn in Hin. apply in_upd_conn in Hin. destruct Hin as [Hin|[c [Hin [E _]]]]; auto.
+    subst c'. destruct (H c) as [A [B [C _]]]. rewrite A, C. rewrite B in Hr. auto.
   - intros c' Hin Hr. cbn in Hin. apply in_upd_conn in Hin. destruct Hin as [Hin|[c [Hin [E _]]]]; auto.
     subst c'. destruct (H c) as [A [B [C _]]]. rewrite A, C. rewrite B in Hr. auto.
   - intros c' Hin Hr. cbn in Hin. apply in_upd_conn in Hin. destruct Hin as [Hin|[c [Hin [E Eid]]]]; auto.
@@ -1626,101 +2265,177 @@ Qed.
 Lemma S_seen_mono s1 s2 n : incl s1 s2 -> S_seen s1 n -> S_seen s2 n.
 Proof. intros Hi Hs c Hin Hr. destruct (Hs c Hin Hr); auto. Qed.
 
-(* one guarded event: the step is a guarded derivation that writes identities only on `ev_seen` *)
-Lemma step_guarded n ds e seen : W n -> S_seen seen n -> ev_guard n seen e ->
-  exists md, (forall k, writes md k -> List.In k (ev_seen e ++ seen)%list) /\
-             (md = MQuiet \/ exists k, md = MOn k) /\
-             trans md n (fst (step n ds e)).
+(* one guarded event: the step is a guarded derivation that writes node names only on `ev_seen` *)
+Lemma step_guarded nc n ds e seen : W n -> S_seen seen n -> ev_guard nc n seen e ->
+  exists w, (forall k, writes (MG nc w) k -> List.In k (ev_seen e ++ seen)%list) /\
+            trans (MG nc w) n (fst (step n ds e)).
 Proof.
   intros HW Hs Hg.
-  assert (Hq : ev_pre MQuiet n ds e -> exists md, (forall k, writes md k -> List.In k (ev_seen e ++ seen)%list) /\
-             (md = MQuiet \/ exists k, md = MOn k) /\ trans md n (fst (step n ds e))).
-  { intros Hp. exists MQuiet. split; [intros k []|]. split; auto. apply step_t; [exact Hp|constructor]. }
+  assert (Hq : ev_pre (MG nc WNone) n ds e ->
+               exists w, (forall k, writes (MG nc w) k -> List.In k (ev_seen e ++ seen)%list) /\
+                         trans (MG nc w) n (fst (step n ds e))).
+  { intros Hp. exists WNone. split; [intros k []|]. apply step_t; [exact Hp|constructor]. }
   destruct e; try (apply Hq; exact I).
-  destruct (List.existsb is_ce ms) eqn:Ee; [|apply Hq; cbn; now apply msgs_pre_noce].
-  clear Hq. destruct (get_conn n cid) as [c|] eqn:Ec.
-  - exists (MOn cid). split; [|split; [eauto|]].
+  destruct (get_conn n cid) as [c|] eqn:Ec.
+  2:{ exists WNone. split; [intros k []|]. unfold step. rewrite Ec. constructor. }
+  cbn [ev_guard] in Hg. destruct (Hg c Ec) as [Hst [Hcnt Hout]].
+  destruct (get_conn_some _ _ _ Ec) as [Hin Eid].
+  assert (Hn : noconn (MG nc WNone) -> ncon cid (upd_last_read (fst (fst (io_iteration n ds))) cid)).
+  { intros G. unfold upd_last_read. apply ncon_upd; [intro; reflexivity|intros; left; reflexivity|].
+    eapply (trans_ncon (MG nc WNone)); [apply io_iteration_t; constructor|].
+    destruct HW as [[_ Hlt] _]. split; [apply Hlt in Hin; lia|].
+    intros c' E'. rewrite Ec in E'. inversion E'; subst c'. destruct nc; [exact Hst|destruct G]. }
+  destruct (List.existsb is_cer ms) eqn:Ee.
+  - clear Hq. exists (WOn cid). split.
     + intros k Hk. cbn in Hk. subst k. cbn. rewrite Ee. now left.
-    + apply step_t; [|constructor]. cbn [ev_pre]. cbn [ev_guard] in Hg. destruct (Hg c Ec) as [Hcnt Hm].
+    + apply step_t; [|constructor]. cbn [ev_pre].
       pose proof (existsb_count _ Ee) as H1.
-      apply (guard_msgs_pre cid c); auto.
-      * unfold upd_last_read. apply keeps_upd; [soft_tac|].
-        eapply trans_keeps; [apply io_iteration_t; constructor|].
-        destruct HW as [[_ Hlt] _]. destruct (get_conn_some _ _ _ Ec) as [Hin Eid]. split.
+      apply (guard_msgs_pre nc cid c); auto.
+      * left. unfold upd_last_read. apply keeps_upd; [soft_tac|].
+        eapply (trans_keeps nc); [apply io_iteration_t; constructor|].
+        destruct HW as [[_ Hlt] _]. split.
         -- apply Hlt in Hin. lia.
         -- intros c' E'. rewrite Ec in E'. inversion E'; auto.
-      * intros Hr. destruct (get_conn_some _ _ _ Ec) as [Hin Eid]. destruct (Hs c Hin Hr) as [A|A]; auto.
+      * intros _. assert (Hr : c_recv c = true).
+        { destruct (c_recv c); auto. pose proof (Hout eq_refl). lia. }
+        destruct (Hs c Hin Hr) as [A|A]; auto.
         rewrite Eid in A. apply mem_nat_in in A. rewrite A in Hcnt. lia.
       * destruct (mem_nat cid seen); lia.
-  - exists MQuiet. split; [intros k []|]. split; auto. unfold step. rewrite Ec. constructor.
+  - apply Hq. cbn [ev_pre]. apply msgs_pre_noce; auto.
 Qed.
 
-Lemma run_guarded evs : forall n seen, GI n -> S_seen seen n -> ce_guard_from n seen evs ->
-  GI (fst (run n evs)).
+(* an invariant of the guarded atomic transitions is an invariant of every guarded run *)
+Lemma run_guarded nc (P : node -> Prop) :
+  (forall n n', astep (MG nc WAll) n n' -> P n -> P n') -> (forall n, P n -> W n) ->
+  forall evs n seen, P n -> S_seen seen n -> guard_from nc n seen evs -> P (fst (run n evs)).
 Proof.
-  induction evs as [|de r IH]; intros n seen HG Hs Hc; [exact HG|].
+  intros HP HPW. induction evs as [|de r IH]; intros n seen HG Hs Hc; [exact HG|].
   destruct Hc as [H1 H2]. rewrite run_cons.
-  assert (HW : W n) by apply HG.
-  destruct (step_guarded n (fst de) (snd de) seen HW Hs H1) as [md [Hw [Hmd Ht]]].
+  assert (HW : W n) by now apply HPW.
+  destruct (step_guarded nc n (fst de) (snd de) seen HW Hs H1) as [w [Hw Ht]].
   apply (IH _ (ev_seen (snd de) ++ seen)%list); auto.
-  - assert (Ht' : trans MGuard n (fst (step n (fst de) (snd de)))).
-    { destruct Hmd as [E|[k E]]; subst md; [now apply trans_quiet|eapply trans_on; eauto]. }
-    eapply (trans_inv MGuard GI); eauto. apply astep_GI.
-  - eapply (trans_inv md (S_seen (ev_seen (snd de) ++ seen)%list)); eauto.
+  - eapply (trans_inv (MG nc WAll) P); eauto. eapply trans_all; eauto.
+  - eapply (trans_inv (MG nc w) (S_seen (ev_seen (snd de) ++ seen)%list)); eauto.
     + intros a b Hab. eapply astep_seen; eauto.
     + eapply S_seen_mono; [|exact Hs]. apply incl_appr, incl_refl.
 Qed.
 
+Lemma S_seen_init n : wf_init n -> S_seen [] n.
+Proof. intros [H1 _] c Hin. rewrite H1 in Hin. destruct Hin. Qed.
+
+Lemma reach_c_GC n0 n : reach_c n0 n -> GC n.
+Proof.
+  intros [evs [[Hw Hne] [Hc E]]]. subst n. apply (run_guarded false GC) with (seen := []); auto.
+  - intros a b. apply astep_GC. exact I.
+  - intros a H. apply H.
+  - now apply GC_init.
+  - now apply S_seen_init.
+Qed.
+
 Lemma reach_g_GI n0 n : reach_g n0 n -> GI n.
 Proof.
-  intros [evs [[Hw Hne] [Hc E]]]. subst n. apply (run_guarded evs n0 []); auto.
+  intros [evs [[Hw Hne] [Hc E]]]. subst n. apply (run_guarded true GI) with (seen := []); auto.
+  - intros a b. apply astep_GI. exact I.
+  - intros a H. apply H.
   - now apply GI_init.
-  - intros c Hin. destruct Hw as [H1 _]. rewrite H1 in Hin. destruct Hin.
+  - now apply S_seen_init.
 Qed.
 
-Lemma reach_g_reach n0 n : reach_g n0 n -> reach n0 n.
-Proof. intros [evs [[Hw _] [_ E]]]. exists evs. auto. Qed.
+Lemma GC_parts n : GC n -> W n /\ P_ne n /\ P_own n /\ K1 n /\ G_ident n /\ G_live n /\ G_conv n.
+Proof. intros [[HW [Hne Ho]] [[_ [_ K]] [A [B C]]]]. tauto. Qed.
 
-(* ---- invariant 3 (C13), guarded ---- *)
-Theorem C13_peer_conn_live : forall n0 n, reach_g n0 n ->
+Definition past_ce (c : conn) : Prop := is_ready_state (c_state c) = true \/ c_state c = SDisconnecting.
+Lemma past_ce_est c : past_ce c -> est (c_state c).
+Proof. intros [Hs|Hs]; [destruct (c_state c); try discriminate; exact I|rewrite Hs; exact I]. Qed.
+
+(* ---- invariant 3 (C13): under cer_guard (no peer named "", clauses i and ii) ---- *)
+Theorem C13_peer_conn_live : forall n0 n, reach_c n0 n ->
   forall p cid, List.In p (n_peers n) -> p_conn p = Some cid ->
-  exists c, List.In c (n_conns n) /\ c_id c = cid /\ (c_node_name c = p_name p \/ c_host c = p_name p).
+  exists c, List.In c (n_conns n) /\ c_id c = cid /\ c_node_name c = p_name p.
 Proof.
-  intros n0 n H p cid Hp Hc. destruct (reach_g_GI _ _ H) as [_ [_ [Hl _]]].
-  destruct (Hl p cid Hp Hc) as [c [A [B C]]]. exists c. auto.
+  intros n0 n H p cid Hp Hc. destruct (GC_parts _ (reach_c_GC _ _ H)) as [_ [_ [_ [_ [_ [Hl _]]]]]].
+  exact (Hl p cid Hp Hc).
 Qed.
 
-(* the stronger form that is actually invariant under the guard *)
-Theorem C13_peer_conn_live_strong : forall n0 n, reach_g n0 n ->
+(* host identities: empty, or the node name *)
+Theorem C13_peer_conn_live_strong : forall n0 n, reach_c n0 n ->
   (forall c, List.In c (n_conns n) -> c_host c = ""%string \/ c_host c = c_node_name c) /\
   (forall p cid, List.In p (n_peers n) -> p_conn p = Some cid ->
    exists c, List.In c (n_conns n) /\ c_id c = cid /\ c_node_name c = p_name p).
-Proof. intros n0 n H. destruct (reach_g_GI _ _ H) as [_ [Hi [Hl _]]]. auto. Qed.
+Proof. intros n0 n H. destruct (GC_parts _ (reach_c_GC _ _ H)) as [_ [_ [_ [_ [Hi [Hl _]]]]]]. auto. Qed.
 
-(* ---- invariant 4 under the guard (the guard is not needed for it: see C12_outbound_owned) ---- *)
-Theorem C12_outbound_owned_g : forall n0 n, reach_g n0 n ->
-  forall c, List.In c (n_conns n) -> c_recv c = false ->
-  exists p, List.In p (n_peers n) /\ p_name p = c_node_name c /\ p_conn p = Some (c_id c).
-Proof. intros n0 n H. destruct (reach_g_GI _ _ H) as [[_ [_ Ho]] _]. exact Ho. Qed.
-
-(* ---- invariant 6 (C19), guarded ---- *)
-Theorem C19_waiting_hosts : forall n0 n, reach_g n0 n ->
-  forall h, List.In h (List.map fst (n_peer_waiting n)) ->
-  h = ""%string \/ exists c, List.In c (n_conns n) /\ c_host c = h.
-Proof. intros n0 n H. destruct (reach_g_GI _ _ H) as [_ [_ [_ Hp]]]. exact Hp. Qed.
-
-Theorem C19_no_conns_no_tables : forall n0 n, reach_g n0 n -> n_conns n = [] ->
-  n_half_ready n = [] /\ n_socket_peers n = [] /\
-  (forall h, List.In h (List.map fst (n_peer_waiting n)) -> h = ""%string) /\
-  (forall p, List.In p (n_peers n) -> p_conn p = None).
+(* the converse, run level: the peer of a connection that is past the capabilities exchange points to it *)
+Theorem C13_peer_conn_exact : forall n0 n, reach_c n0 n ->
+  forall c p, List.In c (n_conns n) -> List.In p (n_peers n) -> c_node_name c = p_name p ->
+  is_ready_state (c_state c) = true \/ c_state c = SDisconnecting ->
+  p_conn p = Some (c_id c).
 Proof.
-  intros n0 n H E. pose proof (reach_g_GI _ _ H) as [[[_ [_ [[T1 [_ [T3 _]]] _]]] _] [_ [Hl Hp]]].
-  unfold G_live, G_pw in Hl, Hp. rewrite E in T1, T3, Hl, Hp. cbn in T1, T3.
-  split; [|split; [|split]].
+  intros n0 n H c p Hc Hp En Hs. destruct (GC_parts _ (reach_c_GC _ _ H)) as [_ [_ [_ [_ [_ [_ Hv]]]]]].
+  apply Hv; auto. now apply past_ce_est.
+Qed.
+
+(* what the election buys: one connection per peer past the capabilities exchange *)
+Theorem C13_one_conn_per_peer : forall n0 n, reach_c n0 n ->
+  forall c1 c2, List.In c1 (n_conns n) -> List.In c2 (n_conns n) ->
+  c_node_name c1 = c_node_name c2 ->
+  is_ready_state (c_state c1) = true \/ c_state c1 = SDisconnecting ->
+  is_ready_state (c_state c2) = true \/ c_state c2 = SDisconnecting ->
+  c1 = c2 /\ c_node_name c1 <> ""%string.
+Proof.
+  intros n0 n H c1 c2 H1 H2 En S1 S2.
+  destruct (GC_parts _ (reach_c_GC _ _ H)) as [[[Hnd _] _] [Hne [Ho [Hk [_ [_ Hv]]]]]].
+  apply past_ce_est in S1, S2.
+  assert (Hp : exists p, List.In p (n_peers n) /\ p_name p = c_node_name c1).
+  { destruct (c_recv c1) eqn:Er.
+    - pose proof (Hk c1 H1 Er S1) as A. apply in_map_iff in A. destruct A as [p [A B]]. eauto.
+    - destruct (Ho c1 H1 Er) as [p [A [B _]]]. eauto. }
+  destruct Hp as [p [Hp Ep]]. split; [|eapply name_nonempty; eauto].
+  pose proof (Hv c1 p H1 S1 Hp Ep) as A. rewrite En in Ep. pose proof (Hv c2 p H2 S2 Hp Ep) as B.
+  eapply conn_unique; eauto. congruence.
+Qed.
+
+Theorem C13_no_conns_no_peer_conn : forall n0 n, reach_c n0 n -> n_conns n = [] ->
+  n_half_ready n = [] /\ n_socket_peers n = [] /\ (forall p, List.In p (n_peers n) -> p_conn p = None).
+Proof.
+  intros n0 n H E. destruct (GC_parts _ (reach_c_GC _ _ H)) as [[_ [_ [[T1 [_ [T3 _]]] _]]] [_ [_ [_ [_ [Hl _]]]]]].
+  unfold G_live in Hl. rewrite E in T1, T3, Hl. cbn in T1, T3.
+  split; [|split].
   - destruct (n_half_ready n) as [|x l]; auto. destruct (T1 x (or_introl eq_refl)).
   - destruct (n_socket_peers n) as [|x l]; auto. destruct (T3 x (or_introl eq_refl)).
-  - intros h Hh. destruct (Hp h Hh) as [A|[c [[] _]]]; auto.
   - intros p Hin. destruct (p_conn p) as [k|] eqn:Ek; auto. destruct (Hl p k Hin Ek) as [c [[] _]].
+Qed.
+
+(* ---- invariant 8 under ce_guard: every established connection (either direction) carries the
+   name of a configured peer both as node name and as host identity ---- *)
+Theorem C06_ready_known_g : forall n0 n, reach_g n0 n ->
+  forall c, List.In c (n_conns n) ->
+  is_ready_state (c_state c) = true \/ c_state c = SDisconnecting ->
+  c_host c = c_node_name c /\ exists p, List.In p (n_peers n) /\ p_name p = c_node_name c.
+Proof.
+  intros n0 n H c Hin Hs. destruct (reach_g_GI _ _ H) as [HC [Hh _]].
+  destruct (GC_parts _ HC) as [_ [_ [Ho [Hk [Hi _]]]]].
+  pose proof (past_ce_est _ Hs) as He.
+  split.
+  - destruct (Hi c Hin) as [A|A]; auto. exfalso. eapply Hh; eauto.
+  - destruct (c_recv c) eqn:Er.
+    + pose proof (Hk c Hin Er He) as A. apply in_map_iff in A. destruct A as [p [A B]]. eauto.
+    + destruct (Ho c Hin Er) as [p [A [B _]]]. eauto.
+Qed.
+
+(* ---- invariant 6 (C19), under ce_guard ---- *)
+Theorem C19_waiting_hosts : forall n0 n, reach_g n0 n ->
+  forall h, List.In h (List.map fst (n_peer_waiting n)) ->
+  h <> ""%string /\ exists c, List.In c (n_conns n) /\ c_host c = h.
+Proof. intros n0 n H h Hh. destruct (reach_g_GI _ _ H) as [_ [_ Hp]]. exact (Hp h Hh). Qed.
+
+Theorem C19_no_conns_no_tables : forall n0 n, reach_g n0 n -> n_conns n = [] ->
+  n_half_ready n = [] /\ n_socket_peers n = [] /\ n_peer_waiting n = [] /\
+  (forall p, List.In p (n_peers n) -> p_conn p = None).
+Proof.
+  intros n0 n H E. destruct (C13_no_conns_no_peer_conn _ _ (reach_g_reach_c _ _ H) E) as [A [B C]].
+  destruct (reach_g_GI _ _ H) as [_ [_ Hp]]. unfold G_pw in Hp. rewrite E in Hp.
+  repeat split; auto.
+  destruct (n_peer_waiting n) as [|e l]; auto. destruct (Hp (fst e) (or_introl eq_refl)) as [_ [c [[] _]]].
 Qed.
 
 (* ---------------------------------------------------------------------------------------- *)
@@ -1758,19 +2473,17 @@ Proof. intros H1 H2. unfold wf_init. cbn. repeat (split; [solve [auto]|]). auto.
 Ltac wf_tac :=
   apply wf_node0; [repeat constructor; cbn; intuition discriminate|
                    cbn; intros p Hp; repeat (destruct Hp as [Hp|Hp]; [subst p; cbn; auto|]); destruct Hp].
-(* discharge ce_guard for a concrete history *)
+(* discharge ce_guard / cer_guard for a concrete history *)
 Ltac ev_guard_tac :=
   match goal with
-  | |- ev_guard _ _ (ERecv _ _) =>
+  | |- ev_guard _ _ _ (ERecv _ _) =>
       let c := fresh "c" in let Hc := fresh "Hc" in
       cbn [ev_guard snd]; intros c Hc; vm_compute in Hc; inversion Hc; subst c; clear Hc;
-      split; [vm_compute; lia|];
-      let m := fresh "m" in let Hm := fresh "Hm" in
-      intros m Hm _; cbn in Hm; repeat (destruct Hm as [Hm|Hm]; [subst m; cbn; try reflexivity; try (intros ? E; inversion E; reflexivity)|]);
-      try destruct Hm
-  | |- ev_guard _ _ _ => exact I
+      split; [vm_compute; first [exact I|discriminate]|]; split; [vm_compute; lia|];
+      vm_compute; intros; first [reflexivity|discriminate]
+  | |- ev_guard _ _ _ _ => exact I
   end.
-Ltac ce_guard_tac := unfold ce_guard; cbn [ce_guard_from]; repeat (split; [cbn [snd fst]; ev_guard_tac|]); try exact I.
+Ltac ce_guard_tac := unfold ce_guard, cer_guard; cbn [guard_from]; repeat (split; [cbn [snd fst]; ev_guard_tac|]); try exact I.
 End Witness.
 Import Witness.
 
@@ -1779,7 +2492,7 @@ Example reachable_two_conns :
   let n0 := node0 [mkpeer "a" true; mkpeer "b" false] in
   let evs := [([], EStart); ([], ERecv 0 [ce false "a" 1%Z]); ([], EAccept 1%Z)] in
   let n := fst (run n0 evs) in
-  reach n0 n /\ reach_g n0 n /\
+  reach n0 n /\ reach_c n0 n /\ reach_g n0 n /\
   List.map (fun c => (c_id c, c_recv c, c_state c, c_node_name c, c_host c)) (n_conns n) =
     [(0, false, SReady, "a"%string, "a"%string); (1, true, SConnected, ""%string, ""%string)] /\
   List.map (fun p => (p_name p, p_conn p)) (n_peers n) = [("a"%string, Some 0); ("b"%string, None)] /\
@@ -1787,30 +2500,101 @@ Example reachable_two_conns :
 Proof.
   intros n0 evs n.
   assert (Hw : wf_init n0) by (subst n0; wf_tac).
-  split; [exists evs; auto|]. split.
-  - exists evs. split; [split; [exact Hw|cbn; intuition discriminate]|]. split; [|reflexivity].
+  assert (Hg : reach_g n0 n).
+  { exists evs. split; [split; [exact Hw|cbn; intuition discriminate]|]. split; [|reflexivity].
+    subst n0 evs. ce_guard_tac. }
+  split; [exists evs; auto|]. split; [now apply reach_g_reach_c|]. split; [exact Hg|].
+  vm_compute. auto.
+Qed.
+
+(* ---- the election (RFC 6733 5.6.4), guarded histories.  Peer "a" < local host "me": the second
+   inbound connection of a wins, the first is closed (CLEAN), a.connection is the second.  Peer "p" >
+   "me": the second connection is refused (4003, CLOSING), the first stays a.connection. ---- *)
+Example election_won :
+  let n0 := node0 [mkpeer "a" false] in
+  let evs := [([], EAccept 1%Z); ([], ERecv 0 [ce true "a" 1%Z]); ([], EAccept 1%Z); ([], ERecv 1 [ce true "a" 1%Z])] in
+  let n := fst (run n0 evs) in
+  reach_g n0 n /\
+  List.map (fun c => (c_id c, c_state c, c_node_name c, c_host c)) (n_conns n) = [(1, SReady, "a"%string, "a"%string)] /\
+  List.map (fun p => (p_name p, p_conn p)) (n_peers n) = [("a"%string, Some 1)] /\
+  List.filter (fun o => match o with OClose _ _ => true | _ => false end)
+    (snd (step (fst (run n0 (List.firstn 3 evs))) [] (ERecv 1 [ce true "a" 1%Z]))) = [OClose 0 R_CLEAN].
+Proof.
+  intros n0 evs n. split.
+  - exists evs. split; [split; [subst n0; wf_tac|cbn; intuition discriminate]|]. split; [|reflexivity].
     subst n0 evs. ce_guard_tac.
   - vm_compute. auto.
 Qed.
 
-(* ---- FINDING (C13): without the guard, p_conn can dangle.  Peers a, b; the node dials a
-   (connection 0); the CEA on connection 0 carries Origin-Host "b" (another configured peer):
-   _assign_peer_connection files the connection under b as well; when the connection closes
-   remove_peer_connection clears only a (found by node name).  b.connection still points to the
-   removed connection 0. ---- *)
-Theorem C13_peer_conn_live_refuted :
+Example election_lost :
+  let n0 := node0 [mkpeer "p" false] in
+  let evs := [([], EAccept 1%Z); ([], ERecv 0 [ce true "p" 1%Z]); ([], EAccept 1%Z); ([], ERecv 1 [ce true "p" 1%Z])] in
+  let n := fst (run n0 evs) in
+  reach_g n0 n /\
+  List.map (fun c => (c_id c, c_state c, c_node_name c, c_host c)) (n_conns n) = [(0, SReady, "p"%string, "p"%string)] /\
+  List.map (fun p => (p_name p, p_conn p)) (n_peers n) = [("p"%string, Some 0)] /\
+  List.map (fun o => match o with OSend k m => Some (k, o_result m) | _ => None end)
+    (List.filter (fun o => match o with OSend 1 _ => true | _ => false end)
+       (snd (step (fst (run n0 (List.firstn 3 evs))) [] (ERecv 1 [ce true "p" 1%Z])))) = [Some (1, Some RC_ELECTION_LOST)].
+Proof.
+  intros n0 evs n. split.
+  - exists evs. split; [split; [subst n0; wf_tac|cbn; intuition discriminate]|]. split; [|reflexivity].
+    subst n0 evs. ce_guard_tac.
+  - vm_compute. auto.
+Qed.
+
+(* ---- FINDING (C13), clause (i) of the guard is needed: a second CER on the same (inbound)
+   connection.  Peers b, c; an accepted connection sends CER "b" then CER "c": the node name stays b,
+   the host identity becomes c and _assign_peer_connection files the connection under c as well; when
+   the connection closes remove_peer_connection clears only b (found by node name): c.connection
+   dangles.  (The former witness -- a CEA carrying a foreign Origin-Host -- is no longer a
+   counterexample: the repaired receive_cea closes the connection.) ---- *)
+Theorem C13_second_cer_refuted :
+  exists n0 evs, wf_init_g n0 /\
+    let n := fst (run n0 evs) in
+    exists p cid, List.In p (n_peers n) /\ p_conn p = Some cid /\
+                  ~ List.In cid (List.map c_id (n_conns n)) /\ n_conns n = [].
+Proof.
+  exists (node0 [mkpeer "b" false; mkpeer "c" false]).
+  exists [([], EAccept 1%Z); ([], ERecv 0 [ce true "b" 1%Z; ce true "c" 2%Z]); ([], EPeerClose 0)].
+  split; [split; [wf_tac|cbn; intuition discriminate]|].
+  vm_compute. eexists. exists 0. split; [right; left; reflexivity|]. cbn. auto.
+Qed.
+
+(* ---- FINDING (C13), clause (ii) of the guard is needed: a CER read from an established OUTBOUND
+   connection.  The node dials a (connection 0), the exchange completes; a CER with Origin-Host "b" on
+   connection 0 passes the gate (READY): the connection is filed under b; when it closes only a is
+   cleared. ---- *)
+Theorem C13_outbound_cer_refuted :
   exists n0 evs, wf_init_g n0 /\
     let n := fst (run n0 evs) in
     exists p cid, List.In p (n_peers n) /\ p_conn p = Some cid /\
                   ~ List.In cid (List.map c_id (n_conns n)) /\ n_conns n = [].
 Proof.
   exists (node0 [mkpeer "a" true; mkpeer "b" false]).
-  exists [([], EStart); ([], ERecv 0 [ce false "b" 1%Z]); ([], EPeerClose 0)].
+  exists [([], EStart); ([], ERecv 0 [ce false "a" 1%Z]); ([], ERecv 0 [ce true "b" 2%Z]); ([], EPeerClose 0)].
   split; [split; [wf_tac|cbn; intuition discriminate]|].
   vm_compute. eexists. exists 0. split; [right; left; reflexivity|]. cbn. auto.
 Qed.
 
-(* ---- FINDING (C19): without the guard, _peer_waiting leaks.  Peers b, c; an accepted connection
+(* ---- the repaired receive_cea: the former counterexample to C13_peer_conn_live (CEA with a foreign
+   Origin-Host on the dialled connection) now closes the connection with CER_REJECTED; the history is
+   guarded (answers are unrestricted) ---- *)
+Example cea_foreign_identity_closed :
+  let n0 := node0 [mkpeer "a" true; mkpeer "b" false] in
+  let evs := [([], EStart); ([], ERecv 0 [ce false "b" 1%Z])] in
+  let n := fst (run n0 evs) in
+  reach_g n0 n /\ n_conns n = [] /\
+  List.map (fun p => (p_name p, p_conn p, p_reason p)) (n_peers n) =
+    [("a"%string, None, Some R_CER_REJECTED); ("b"%string, None, None)].
+Proof.
+  intros n0 evs n. split.
+  - exists evs. split; [split; [subst n0; wf_tac|cbn; intuition discriminate]|]. split; [|reflexivity].
+    subst n0 evs. ce_guard_tac.
+  - vm_compute. auto.
+Qed.
+
+(* ---- FINDING (C19): without clause (i), _peer_waiting leaks.  Peers b, c; an accepted connection
    sends CER "b", an application request (filed under host b), then a second CER "c" (accepted on
    the READY connection: its host identity becomes c); when the connection closes only the entry of
    host c is dropped.  No connection is left, the entry of b stays for ever; c.connection dangles. *)
@@ -1826,38 +2610,45 @@ Proof.
   vm_compute. repeat split. exists "b"%string. split; [now left|discriminate].
 Qed.
 
-(* ---- KNOWN FINDING (C13, open): the converse of C13_peer_conn_live is false, even for guarded
-   histories: a CER from a peer that already has a connection is accepted on a second connection;
-   when the first closes p_conn becomes None while the second lives, READY. ---- *)
-Theorem C13_peer_conn_converse_refuted :
-  exists n0 evs, wf_init n0 /\
+(* ---- FINDING (C13, converse): without clause (i) the run-level converse fails: after CER "p", CER "q"
+   on connection 0 (q.connection = 0, node name p) a first CER "q" on connection 1 finds no rival named
+   q; connection 1 is READY, named q, and q.connection is still 0.  (The former witnesses -- two
+   connections of the same peer, one CER each -- are no longer counterexamples: the election refuses
+   or replaces the second connection, see election_won / election_lost and C13_peer_conn_exact.) ---- *)
+Theorem C13_peer_conn_exact_unguarded_refuted :
+  exists n0 evs, wf_init_g n0 /\
     let n := fst (run n0 evs) in
     exists p c, List.In p (n_peers n) /\ List.In c (n_conns n) /\ c_node_name c = p_name p /\
-                is_ready_state (c_state c) = true /\ p_conn p = None.
+                is_ready_state (c_state c) = true /\ p_conn p <> Some (c_id c).
 Proof.
-  exists (node0 [mkpeer "p" false]).
-  exists [([], EAccept 1%Z); ([], ERecv 0 [ce true "p" 1%Z]); ([], EAccept 1%Z); ([], ERecv 1 [ce true "p" 1%Z]);
-          ([], EPeerClose 0)].
-  split; [wf_tac|].
-  vm_compute. eexists. eexists. split; [left; reflexivity|]. split; [left; reflexivity|]. cbn. auto.
+  exists (node0 [mkpeer "p" false; mkpeer "q" false]).
+  exists [([], EAccept 1%Z); ([], ERecv 0 [ce true "p" 1%Z; ce true "q" 2%Z]); ([], EAccept 1%Z); ([], ERecv 1 [ce true "q" 1%Z])].
+  split; [split; [wf_tac|cbn; intuition discriminate]|].
+  vm_compute. eexists. eexists. split; [right; left; reflexivity|]. split; [right; left; reflexivity|]. cbn.
+  repeat split; auto. discriminate.
 Qed.
 
-Theorem C13_peer_conn_converse_refuted_g :
-  exists n0 n, reach_g n0 n /\
-    exists p c, List.In p (n_peers n) /\ List.In c (n_conns n) /\ c_node_name c = p_name p /\
-                is_ready_state (c_state c) = true /\ p_conn p = None.
+(* ---- clause (iii) of the guard is needed (not affected by the repair): the gate of PeerConnection
+   lets everything through in state CONNECTING; an application request read from a connection whose
+   connect() is still in progress is filed under the empty host identity and is never dropped.  The
+   history satisfies clauses (i) and (ii). ---- *)
+Theorem C19_connecting_read_refuted :
+  exists n0 evs, wf_init_g n0 /\ cer_guard n0 evs /\
+    let n := fst (run n0 evs) in
+    n_conns n = [] /\ n_peer_waiting n = [(""%string, [(7%Z, 7%Z)])].
 Proof.
-  exists (node0 [mkpeer "p" false]).
-  eexists. split.
-  - exists [([], EAccept 1%Z); ([], ERecv 0 [ce true "p" 1%Z]); ([], EAccept 1%Z); ([], ERecv 1 [ce true "p" 1%Z]);
-            ([], EPeerClose 0)].
-    split; [split; [wf_tac|cbn; intuition discriminate]|]. split; [ce_guard_tac|reflexivity].
-  - vm_compute. eexists. eexists. split; [left; reflexivity|]. split; [left; reflexivity|]. cbn. auto.
+  exists (node0 [mkpeer "a" true]).
+  exists [([(1%Z, DialInProgress)], EStart); ([], ERecv 0 [appreq "a" 7%Z]); ([], EConnDone 0 true);
+          ([], ERecv 0 [ce false "a" 1%Z]); ([], EPeerClose 0)].
+  split; [split; [wf_tac|cbn; intuition discriminate]|]. split; [ce_guard_tac|].
+  vm_compute. auto.
 Qed.
 
 (* ---- FINDING (C12): the hypothesis "no peer is named the empty string" is needed: a CER received
    on a READY outbound connection to the peer named "" renames the connection; two outbound
-   connections then carry the node name "q". ---- *)
+   connections then carry the node name "q" (the renamed one loses the election and is CLOSING; it
+   stays as long as its socket accepts no writes; once it is removed, the connection of peer ""
+   dangles). ---- *)
 Theorem C12_empty_name_refuted :
   exists n0 evs, wf_init n0 /\
     let n := fst (run n0 evs) in
@@ -1865,7 +2656,7 @@ Theorem C12_empty_name_refuted :
                   c_node_name c1 = c_node_name c2 /\ c_id c1 <> c_id c2.
 Proof.
   exists (node0 [mkpeer "" true; mkpeer "q" true]).
-  exists [([], EStart); ([], ERecv 0 [ce false "" 1%Z]); ([], ERecv 0 [ce true "q" 2%Z])].
+  exists [([], EStart); ([], ERecv 0 [ce false "" 1%Z]); ([], EStall 0 true); ([], ERecv 0 [ce true "q" 2%Z])].
   split; [wf_tac|].
   vm_compute. eexists. eexists. split; [left; reflexivity|]. split; [right; left; reflexivity|]. cbn.
   repeat split; auto; discriminate.
@@ -1909,8 +2700,8 @@ Qed.
 
 (* partial converse of C13 at the place where it is established: when the capabilities exchange of
    connection cid succeeds (assign + flag ready) and NO OTHER live connection carries the peer's
-   name, the peer's connection IS cid afterwards.  (With a second connection of the same name the
-   peer keeps pointing to the older one: the known finding.) *)
+   name, the peer's connection IS cid afterwards.  (The election establishes the premise: see
+   C13_election_clears_rivals; the run-level statement is C13_peer_conn_exact.) *)
 Lemma assign_peers n cid c p : get_conn n cid = Some c -> c_host c <> ""%string -> get_peer n (c_host c) = Some p ->
   n_peers (assign_peer_conn n cid) =
   upd_peer (n_peers n) (c_host c) (assign_fn cid (fun p => if mem_nat cid (n_half_ready n) then Some (n_now n) else p_lastconn p)).
@@ -1943,6 +2734,33 @@ Proof.
     rewrite Ec. rewrite find_upd_conn by (intro; reflexivity). unfold get_conn in Hg. now rewrite Hg.
 Qed.
 
+(* the election, step level (no reachability needed): once the rivals are closed, connection cid is the
+   only connection that carries the node name `host`; the rivals' ids are in none of the tables *)
+Theorem C13_election_clears_rivals : forall n cid host r,
+  let n' := fst (close_all n (election_rivals n cid host) r) in
+  (forall c', List.In c' (n_conns n') -> c_node_name c' = host -> c_id c' = cid) /\
+  (forall c, get_conn n cid = Some c -> List.In c (n_conns n')) /\
+  (forall c', List.In c' (n_conns n') -> List.In c' (n_conns n)).
+Proof.
+  intros n cid host r n'. split; [|split].
+  - intros c' Hin En. apply close_all_in in Hin. destruct Hin as [Hin Hnr].
+    destruct (Nat.eq_dec (c_id c') cid) as [D|D]; auto. exfalso. apply Hnr.
+    unfold election_rivals. apply in_map. apply filter_In. split; auto.
+    apply andb_true_iff. split; [now apply negb_true_iff, Nat.eqb_neq|now apply String.eqb_eq].
+  - intros c Hc. destruct (get_conn_some _ _ _ Hc) as [Hin Eid]. subst n'.
+    assert (Hnr : ~ List.In cid (election_rivals n cid host)).
+    { unfold election_rivals. intro H. apply in_map_iff in H. destruct H as [x [E H]]. apply filter_In in H.
+      destruct H as [_ H]. apply andb_true_iff in H. destruct H as [H _]. apply negb_true_iff, Nat.eqb_neq in H. auto. }
+    revert Hnr Hin. generalize (election_rivals n cid host). intros ks. clear Hc. revert n.
+    induction ks as [|k ks IH]; intros n Hnr Hin; cbn [close_all fst]; auto.
+    dpair (close_conn n k r). dpair (close_all (fst (close_conn n k r)) ks r). cbn [fst].
+    apply IH; [intro; apply Hnr; now right|].
+    unfold close_conn. destruct (get_conn n k) as [ck|] eqn:Ek; cbn [fst]; auto.
+    erewrite rc_conns by eauto. apply filter_In. split; auto. apply negb_true_iff, Nat.eqb_neq.
+    intro D. apply Hnr. left. congruence.
+  - intros c' Hin. apply close_all_in in Hin. tauto.
+Qed.
+
 (* ---------------------------------------------------------------------------------------- *)
 (* 11. assumptions                                                                            *)
 (* ---------------------------------------------------------------------------------------- *)
@@ -1955,17 +2773,26 @@ Print Assumptions remove_conn_sets_reason.
 Print Assumptions C19_windows_bounded.
 Print Assumptions C12_outbound_owned.
 Print Assumptions C12_single_outbound.
+Print Assumptions C06_ready_inbound_known.
 Print Assumptions C13_peer_conn_live.
 Print Assumptions C13_peer_conn_live_strong.
-Print Assumptions C12_outbound_owned_g.
+Print Assumptions C13_peer_conn_exact.
+Print Assumptions C13_one_conn_per_peer.
+Print Assumptions C13_no_conns_no_peer_conn.
+Print Assumptions C06_ready_known_g.
 Print Assumptions C19_waiting_hosts.
 Print Assumptions C19_no_conns_no_tables.
 Print Assumptions reachable_two_conns.
-Print Assumptions C13_peer_conn_live_refuted.
+Print Assumptions election_won.
+Print Assumptions election_lost.
+Print Assumptions cea_foreign_identity_closed.
+Print Assumptions C13_second_cer_refuted.
+Print Assumptions C13_outbound_cer_refuted.
+Print Assumptions C13_peer_conn_exact_unguarded_refuted.
 Print Assumptions C19_waiting_hosts_refuted.
-Print Assumptions C13_peer_conn_converse_refuted.
-Print Assumptions C13_peer_conn_converse_refuted_g.
+Print Assumptions C19_connecting_read_refuted.
 Print Assumptions C12_empty_name_refuted.
 Print Assumptions C13_ready_flag_partial.
 Print Assumptions C13_ready_flag_removed.
 Print Assumptions C13_peer_conn_converse_partial.
+Print Assumptions C13_election_clears_rivals.
